@@ -1,25 +1,34 @@
 """C03 - parity partners carry exactly the parity sign of the flipped nodes.
 
-R-DEPENDS  the prefactor attached to a chain depends on the node(s) whose coefficient was
-           mapped to a partner: every contribution is control-dependent on the per-node test
-           "mapped suffix != raw suffix" and data-dependent on that node.
+R-DEPENDS  the prefactor attached to a chain is a PRODUCT over the nodes of the chain in which every
+           contribution is control-dependent on the per-node test "mapped suffix != raw suffix" of
+           exactly that node and is the parity factor of exactly that node.
 R-PARTNER  the partner suffix reverses both daughter helicities and suppresses the parent's.
 
-The control/data conditions are decided on the PATHS of the functions, not on their text: ``SymExec``
-below executes a function symbolically for one generic iteration of every loop (forking at every
-``if``), substitutes local definitions and the bodies of package helpers into the branch conditions
-and values, and brings list comprehensions and accumulator loops into one normal form.  Guard clauses
-(``if c: continue``), nested ifs, hoisted aliases, extracted predicates and ``m.get(k, k)`` versus
-``k in m`` / ``m[k]`` therefore all read the same.
+Nothing is decided on the text of the functions.  ``SymExec`` below executes a function symbolically for
+one generic iteration of every loop (forking at every ``if``), substitutes local definitions and the
+bodies of package helpers (methods, module functions, nested closures, generator functions) into the
+branch conditions and values, and brings the different spellings of "a sequence" and "a product" into
+one normal form each:
+
+* sequences:  ``[f(x) for x in S]``, ``list(f(x) for x in S)``, ``a = []; for x in S: a.append(f(x))``,
+  ``map(f, S)``, ``filter(p, S)``, a generator function that yields ``f(x)`` in a loop over ``S``;
+* products:   ``p = 1; for x in S: p *= f(x)`` (also ``p = p * f(x)`` / ``p = f(x) * p``),
+  ``functools.reduce(operator.mul, SEQ, 1)``, ``math.prod(SEQ, start=1)``, ``sp.Mul(*SEQ)``, ``sp.prod(SEQ)``.
+
+The rules then read VALUES and PATH FACTS.  Every rule is three-valued: it reports a violation only with
+positive evidence (the construct was understood and the necessary condition is broken on a path); a value,
+condition or helper that the execution could not interpret is an ``AnalysisError`` ("cannot decide").
 """
 
 from __future__ import annotations
 
 import ast
+import builtins
 import copy
 
-from ..dataflow import MUTATORS, RD
-from ..loader import AnalysisError, FuncInfo, Tree, ancestors, unparse, walk_function
+from ..dataflow import MUTATORS
+from ..loader import AnalysisError, FuncInfo, Tree, _local_names, ancestors, unparse, walk_function
 from ..report import Check
 
 PID = "C03"
@@ -31,43 +40,67 @@ RAW_SUFFIX = "generate_two_body_decay_suffix"
 def locate_prefactor_function(tree: Tree) -> FuncInfo:
     """The function whose result is multiplied into the sequential amplitude and that reads the
     parity-partner mapping (found from the dataflow of __formulate_sequential_decay, not by name)."""
+    from ..dataflow import RD
+
     seq = tree.func(f"{BUILDER}.__formulate_sequential_decay")
-    rd = RD(seq.node)
-    candidates = []
-    sources: list[ast.AST] = []
-    for node in walk_function(seq.node):
-        if isinstance(node, ast.AugAssign) and isinstance(node.op, ast.Mult):
-            sources.append(node.value)
-        if isinstance(node, ast.BinOp) and isinstance(node.op, ast.Mult):
-            sources += [node.left, node.right]
-    for src in sources:
-        for d in rd.closure(rd.uses(src)):
-            if d.value is not None and isinstance(d.value, ast.Call):
-                callee = tree.callee(d.value, seq)
-                if callee in tree.funcs:
-                    candidates.append(tree.funcs[callee])
-    reads = lambda g: any(isinstance(n, ast.Attribute) and n.attr == MAPPING for n in walk_function(g.node))  # noqa: E731
-    for f in candidates:
-        if reads(f):
-            return f
-    # ... or reads it in a helper extracted from it (a function of the same module that it calls; the name
-    # generator, which reads the mapping for the coefficient NAME, lives in another module)
-    for f in candidates:
+    reads = lambda g: any(isinstance(n, ast.Attribute) and n.attr.split("__")[-1] == MAPPING for n in walk_function(g.node))  # noqa: E731
+
+    def reads_through_helper(f: FuncInfo) -> bool:
+        # ... reads it in a helper extracted from it (a function of the same module that it calls; the name
+        # generator, which reads the mapping for the coefficient NAME, lives in another module)
         seen, todo = {f.qual}, [f]
         while todo:
             g = todo.pop()
-            for _, q in tree.calls_in(g):
+            used = [q for _, q in tree.calls_in(g)]
+            for n in walk_function(g.node):  # (properties of the class that are read through `self`)
+                if isinstance(n, ast.Attribute) and isinstance(n.value, ast.Name) and n.value.id == "self":
+                    used.append(tree.resolve(g.module, n, g))
+            for q in used:
                 h = tree.funcs.get(q) if q else None
                 if h is not None and h.qual not in seen and h.module is f.module:
                     seen.add(h.qual)
                     todo.append(h)
                     if reads(h):
-                        return f
+                        return True
+        return False
+
+    # the multiplications of the function itself, then of the helpers (same module, two levels) extracted from it
+    level, seen_scan = [seq], {seq.qual}
+    for _depth in range(3):
+        candidates: list[FuncInfo] = []
+        nxt: list[FuncInfo] = []
+        for g in level:
+            rd = RD(g.node)
+            sources: list[ast.AST] = []
+            for node in walk_function(g.node):
+                if isinstance(node, ast.AugAssign) and isinstance(node.op, ast.Mult):
+                    sources.append(node.value)
+                if isinstance(node, ast.BinOp) and isinstance(node.op, ast.Mult):
+                    sources += [node.left, node.right]
+            for src in sources:
+                for d in rd.closure(rd.uses(src)):
+                    if d.value is not None and isinstance(d.value, ast.Call):
+                        callee = tree.callee(d.value, g)
+                        if callee in tree.funcs and tree.funcs[callee] not in candidates:
+                            candidates.append(tree.funcs[callee])
+                for c in ast.walk(src):  # (a factor that is the call itself: `expression * self.__prefactor(t)`)
+                    if isinstance(c, ast.Call):
+                        callee = tree.callee(c, g)
+                        if callee in tree.funcs and tree.funcs[callee] not in candidates:
+                            candidates.append(tree.funcs[callee])
+            for _, q in tree.calls_in(g):
+                h = tree.funcs.get(q) if q else None
+                if h is not None and h.qual not in seen_scan and h.module is seq.module and h.name.startswith("_"):
+                    seen_scan.add(h.qual)
+                    nxt.append(h)
+        for f in candidates:
+            if reads(f):
+                return f
+        for f in candidates:
+            if reads_through_helper(f):
+                return f
+        level = nxt
     raise AnalysisError("vanished anchor: no function that reads parity_partner_coefficient_mapping is multiplied into the sequential amplitude")
-
-
-def node_loops(fn: FuncInfo) -> list[ast.For]:
-    return [n for n in walk_function(fn.node) if isinstance(n, ast.For) and unparse(n.iter).endswith("topology.nodes")]
 
 
 # ============================================================================ symbolic execution
@@ -77,30 +110,54 @@ class _Unsupported(Exception):
 
 class _State:
     """One path: ``env`` (local name -> symbolic value of the CURRENT frame), the branch ``facts``
-    (condition, outcome) met so far (all frames, in terms of the entry function), and for every simple
-    statement of the entry function that was executed: the number of facts known at that point and
-    the symbolic value of its right-hand side."""
+    (condition, outcome) met so far (all frames, in terms of the entry function); ``reached``: for every
+    simple statement that was executed (any frame) the number of facts known at that point and the symbolic
+    value of its right-hand side; ``stores``: container stores ``c[k] = v`` / ``c.update(..)`` with the
+    symbolic container; ``early``: loops that were left early on this path (site, how); ``imprecise``:
+    constructs on this path whose effect on the facts is only approximated (a rule must not report a
+    violation that rests on the ABSENCE of a fact on such a path)."""
 
-    __slots__ = ("env", "facts", "reached", "appends")
+    __slots__ = ("env", "facts", "reached", "appends", "stores", "early", "imprecise", "last_return", "top_return")
 
     def __init__(self) -> None:
         self.env: dict = {}
         self.facts: list[tuple[ast.AST, bool]] = []
-        self.reached: dict[int, tuple[int, ast.AST | None]] = {}
+        self.reached: list[tuple[int, int, ast.AST | None]] = []
         self.appends: dict[str, list[ast.AST]] = {}
+        self.stores: list[tuple[ast.AST, int, ast.stmt]] = []
+        self.early: list[tuple[str, str]] = []
+        self.imprecise: list[str] = []
+        self.last_return: ast.stmt | None = None
+        self.top_return: ast.stmt | None = None
 
     def fork(self) -> "_State":
         new = _State()
         new.env = dict(self.env)
         new.facts = list(self.facts)
-        new.reached = dict(self.reached)
+        new.reached = list(self.reached)
         new.appends = {k: list(v) for k, v in self.appends.items()}
+        new.stores = list(self.stores)
+        new.early = list(self.early)
+        new.imprecise = list(self.imprecise)
+        new.last_return = self.last_return
+        new.top_return = self.top_return
         return new
 
 
 class _Frame:
-    def __init__(self, fn: FuncInfo, depth: int, chain: str, stack: tuple[str, ...]) -> None:
-        self.fn, self.depth, self.chain, self.stack = fn, depth, chain, stack
+    def __init__(self, fn: FuncInfo, depth: int, chain: str, stack: tuple[str, ...], gen: bool = False) -> None:
+        self.fn, self.depth, self.chain, self.stack, self.gen = fn, depth, chain, stack, gen
+
+
+class _Elem:
+    """What iterating a symbolic iterable yields: the bound variable, the generic element, the underlying
+    source, the filters that hold for the element, the loop/comprehension sites it went through, whether
+    the order of the source was changed (sorted / reversed) and whether the iterable is known to be empty."""
+
+    __slots__ = ("var", "elem", "src", "ifs", "sites", "reordered", "empty")
+
+    def __init__(self, var, elem, src, ifs, sites=(), reordered=False, empty=False) -> None:
+        self.var, self.elem, self.src, self.ifs, self.sites, self.reordered, self.empty = var, elem, src, ifs, sites, reordered, empty
 
 
 def _same(a: ast.AST, b: ast.AST) -> bool:
@@ -115,6 +172,116 @@ def _is_empty_list(v) -> bool:
     if isinstance(v, ast.List) and not v.elts:
         return True
     return isinstance(v, ast.Call) and isinstance(v.func, ast.Name) and v.func.id == "list" and not v.args and not v.keywords
+
+
+def _is_empty_literal(v) -> bool:
+    if isinstance(v, (ast.Tuple, ast.List, ast.Set)) and not v.elts:
+        return True
+    if isinstance(v, ast.Dict) and not v.keys:
+        return True
+    return isinstance(v, ast.Call) and isinstance(v.func, ast.Name) and v.func.id in {"list", "tuple", "set", "frozenset", "dict"} and not v.args and not v.keywords
+
+
+def is_none(v) -> bool:
+    return isinstance(v, ast.Constant) and v.value is None
+
+
+def is_one(v) -> bool:
+    if isinstance(v, ast.Attribute) and v.attr == "One" and isinstance(v.value, ast.Attribute) and v.value.attr == "S":
+        return True  # sympy.S.One
+    return isinstance(v, ast.Constant) and not isinstance(v.value, bool) and isinstance(v.value, (int, float)) and v.value == 1
+
+
+def _marker(text: str) -> ast.Name:
+    return ast.Name(id=f"<{text}>", ctx=ast.Load())
+
+
+def is_marker(c: ast.AST) -> bool:
+    return isinstance(c, ast.Name) and c.id.startswith("<") and not c.id.startswith("<each ")
+
+
+PRODUCT = "<product "
+
+
+def is_product(v) -> bool:
+    return isinstance(v, ast.Call) and isinstance(v.func, ast.Name) and v.func.id.startswith(PRODUCT)
+
+
+def product_site(v: ast.Call) -> str:
+    return v.func.id[len(PRODUCT):-1]
+
+
+def _make_product(site: str, loop: str, init: ast.AST, seq: ast.ListComp, factors: list) -> ast.Call:
+    """``<product SITE>(init, seq)``: ``init`` times the product of ``seq``; ``_factors`` = the factors one
+    generic element contributes on this path with the statement / call each comes from; ``_loop`` = the
+    site of the loop that is multiplied over."""
+    node = ast.Call(func=ast.Name(id=f"{PRODUCT}{site}>", ctx=ast.Load()), args=[init, seq], keywords=[])
+    node._factors = list(factors)  # type: ignore[attr-defined]
+    node._loop = loop  # type: ignore[attr-defined]
+    return node
+
+
+def products_in(v: ast.AST) -> list[ast.Call]:
+    return [n for n in ast.walk(v) if is_product(n)]
+
+
+def flatten_mult(v: ast.AST, origin=None) -> list[tuple[ast.AST, object]]:
+    """The factors of a multiplication chain, each with the statement it was multiplied in by."""
+    if isinstance(v, ast.BinOp) and isinstance(v.op, ast.Mult):
+        o = getattr(v, "_origin", origin)
+        return flatten_mult(v.left, o) + flatten_mult(v.right, o)
+    return [(v, origin)]
+
+
+def _mult(factors: list[ast.AST]) -> ast.AST:
+    out = factors[0]
+    for f in factors[1:]:
+        out = ast.BinOp(left=out, op=ast.Mult(), right=f)
+    return out
+
+
+def _split_carried(v, symid: str):
+    """``carried * f1 * f2`` -> [(f1, origin), (f2, origin)]; ``carried`` -> []; anything else -> None."""
+    if v is None:
+        return None
+    fs = flatten_mult(v)
+    idx = [i for i, (f, _) in enumerate(fs) if isinstance(f, ast.Name) and f.id == symid]
+    if len(idx) != 1:
+        return None
+    rest = fs[: idx[0]] + fs[idx[0] + 1 :]
+    if any(isinstance(n, ast.Name) and n.id == symid for f, _ in rest for n in ast.walk(f)):
+        return None
+    return rest
+
+
+class _Subst(ast.NodeTransformer):
+    """Replace free names by values (copies; private attributes of the nodes are kept)."""
+
+    def __init__(self, mapping: dict[str, ast.AST]) -> None:
+        self.mapping = mapping
+
+    def visit(self, node):
+        if isinstance(node, ast.Name):
+            return self.mapping.get(node.id, node) if isinstance(node.ctx, ast.Load) else node
+        if isinstance(node, ast.Lambda):
+            a = node.args
+            bound = {x.arg for x in [*a.posonlyargs, *a.args, *a.kwonlyargs, a.vararg, a.kwarg] if x is not None}
+            inner = {k: v for k, v in self.mapping.items() if k not in bound}
+            new = copy.copy(node)
+            new.body = _Subst(inner).visit(node.body) if inner else node.body
+            return new
+        if isinstance(node, (ast.ListComp, ast.SetComp, ast.GeneratorExp, ast.DictComp)) and not _is_seq(node):
+            bound = {n.id for g in node.generators for n in ast.walk(g.target) if isinstance(n, ast.Name)}
+            if bound & set(self.mapping):
+                inner = {k: v for k, v in self.mapping.items() if k not in bound}
+                return _Subst(inner).visit(node) if inner else node
+        new = copy.copy(node)
+        for fld, value in ast.iter_fields(node):
+            if isinstance(value, list):
+                setattr(new, fld, [self.visit(x) if isinstance(x, ast.AST) else x for x in value])
+            elif isinstance(value, ast.AST):
+                setattr(new, fld, self.visit(value))
+        return new
 
 
 def _truth(v: ast.AST) -> bool | None:
@@ -139,39 +306,66 @@ def _truth(v: ast.AST) -> bool | None:
 
 
 MAX_STATES = 4000
+PROD_FUNCS = {"math.prod", "sympy.prod", "numpy.prod", "sympy.core.mul.prod"}
+MUL_FUNCS = {"operator.mul", "_operator.mul", "operator.__mul__", "sympy.Mul", "sympy.core.mul.Mul"}
+SAME_ELEMENTS = {"list", "tuple", "iter"}  # wrappers that keep elements and order
+REORDERING = {"sorted", "reversed"}  # ... that keep the elements (with multiplicity) but not the order
+TRANSPARENT_DECORATORS = {"staticmethod", "override", "typing.override", "typing_extensions.override", "cache", "functools.cache", "lru_cache", "functools.lru_cache"}
+PROPERTY_DECORATORS = {"property", "cached_property", "functools.cached_property"}
 
 
 class SymExec:
     """Symbolic execution of one function of the package, one generic iteration per loop.
 
     * every ``if`` forks the path (constant conditions do not); the branch condition - with the local
-      definitions of that path substituted - is recorded as a fact of the path;
+      definitions of that path substituted - is recorded as a fact of the path; a conditional expression at
+      an unconditionally evaluated position forks the same way; ``for x in A or B`` / ``for x in (A if c
+      else B)`` fork into a loop over ``A`` and a loop over ``B``; ``try: ... except KeyError`` forks into
+      the normal and the exceptional path (with the fact ``k in m`` / ``k not in m`` when the body is a
+      single statement with a single look-up ``m[k]`` and no call, else the path is marked imprecise);
     * a loop body is executed once for a generic element: ``for x in S`` binds ``x`` to the symbol
-      ``<each S>`` (or, if ``S`` is itself a known sequence, to its generic element); names that are
+      ``<each S>`` (a second loop over the same text gets its own symbol ``<each S>#2``: facts about the
+      element of one loop say nothing about the element of another); if ``S`` is itself a known sequence,
+      ``x`` is its generic element and the filters of ``S`` become facts; ``list/tuple/iter/sorted/reversed``
+      of an iterable have the same elements, ``d.items()`` yields ``(<each d>, d[<each d>])``, ``enumerate``
+      pairs the element with an index symbol; a loop over an empty literal is skipped; names that are
       re-assigned in the body are unknown at the start of the iteration (loop-carried);
-    * ``[f(x) for x in S]``, ``list(f(x) for x in S)`` and ``a = []; for x in S: ...; a.append(f(x))``
-      all become the sequence value ``[f(<each S>) for <each S> in S]``; iterating / mapping over such a
-      value composes the element expressions.  A path that does not append exactly one element per
-      item (continue, break, two appends, a filter) is marked in the ``ifs`` of the sequence;
-    * calls of package functions are executed the same way (depth-bounded, every path of the callee
-      forks the caller) when they sit at a position that is evaluated unconditionally; at conditional
-      positions (right operand of and/or, comprehension element) only branch-free helpers are inlined.
-      ``generate_two_body_decay_suffix`` stays an atom (the raw suffix of a node).
+    * ``[f(x) for x in S]``, ``list(f(x) for x in S)``, ``map(f, S)``, ``filter(p, S)``, a generator function
+      with ``yield f(x)`` in a loop and ``a = []; for x in S: ...; a.append(f(x))`` all become the sequence
+      value ``[f(<each S>) for <each S> in S]``; iterating / mapping over such a value composes the element
+      expressions.  A path that does not append exactly one element per item (continue, break, two
+      appends) is marked in the ``ifs`` of the sequence (``<0 elements on a path>``);
+    * a loop-carried name whose value at the end of the body is ``carried`` or ``carried * f...`` on every
+      path is a product accumulator: after the loop it is ``<product SITE>(initial value, sequence of the
+      factors)``; ``functools.reduce(operator.mul, SEQ[, init])``, ``math.prod(SEQ, start=init)``,
+      ``sp.prod(SEQ)`` and ``sp.Mul(*SEQ)`` become the same value;
+    * ``f(x)`` with ``f`` a lambda, ``operator.attrgetter(..)`` / ``itemgetter(..)`` or ``functools.partial(g, ..)``
+      is reduced to the expression it computes;
+    * calls of package functions (methods, module functions, closures of the running function, generator
+      functions) are executed the same way (depth-bounded, every path of the callee forks the caller) when
+      they sit at a position that is evaluated unconditionally; at conditional positions (right operand of
+      and/or, comprehension element, lambda body) only branch-free helpers are inlined.  The functions named
+      in ``atoms`` (always ``generate_two_body_decay_suffix``) stay calls.
     Everything else stays symbolic text.  Nothing is executed."""
 
-    def __init__(self, tree: Tree, fn: FuncInfo, max_depth: int = 3) -> None:
+    def __init__(self, tree: Tree, fn: FuncInfo, max_depth: int = 3, atoms: frozenset | set = frozenset()) -> None:
         self.tree, self.fn, self.max_depth = tree, fn, max_depth
+        self.atoms = {RAW_SUFFIX, *atoms}
         self.n_states = 0
-        self.opaque_calls: set[str] = set()
+        self.opaque: set[str] = set()
+        self.elements: dict[str, ast.AST] = {}  # generic element symbol -> the iterable it ranges over
+        self.each_sites: dict[str, list] = {}
+        self.carried: dict[str, str] = {}  # loop-carried symbol -> site of its loop
+        self.loop_src: dict[str, ast.AST] = {}  # site -> source the loop ranges over
+        self.top = _Frame(fn, 0, "", (fn.qual,))
 
     # ------------------------------------------------------------------ public
     def run(self) -> list[tuple[_State, ast.AST]]:
         """Final states of the entry function with the symbolic return value (None constant for a
         bare return / falling off the end); paths that raise are dropped."""
         st = _State()
-        frame = _Frame(self.fn, 0, "", (self.fn.qual,))
         try:
-            results = self._block(self.fn.node.body, st, frame)
+            results = self._block(self.fn.node.body, st, self.top)
         except _Unsupported as exc:
             raise AnalysisError(f"{self.fn.qual}: the path analysis cannot follow {exc}") from exc
         out = []
@@ -186,8 +380,68 @@ class SymExec:
         return ast.Name(id=f"{name}@{fr.chain}{getattr(node, 'lineno', 0)}", ctx=ast.Load())
 
     @staticmethod
-    def _each(src: ast.AST) -> str:
-        return f"<each {unparse(src)}>"
+    def _site(node: ast.AST, fr: _Frame) -> str:
+        return f"{fr.chain}{getattr(node, 'lineno', 0)}:{getattr(node, 'col_offset', 0)}"
+
+    def _each(self, src: ast.AST, site: str) -> str:
+        text = unparse(src)
+        sites = self.each_sites.setdefault(text, [])
+        if site not in sites:
+            sites.append(site)
+        k = sites.index(site)
+        name = f"<each {text}>" + ("" if k == 0 else f"#{k + 1}")
+        self.elements[name] = src
+        return name
+
+    def _fname(self, f: ast.AST, fr: _Frame | None = None) -> str | None:
+        """Canonical dotted name (``functools.reduce``, ``operator.mul``, ``mod::func``) or builtin name of a
+        function reference; None for locals and everything unknown."""
+        fr = fr or self.top
+        mod = getattr(f, "_module", None)
+        if isinstance(f, ast.Name):
+            if "@" in f.id or f.id.startswith("<"):
+                return None
+            q = None
+            if mod is not None:
+                try:
+                    q = self.tree.resolve(mod, f, fr.fn)
+                except Exception:  # noqa: BLE001
+                    q = None
+            if q:
+                return q
+            if hasattr(builtins, f.id) and f.id not in fr.fn.params and f.id not in _local_names(fr.fn.node):
+                return f.id
+            return None
+        if isinstance(f, ast.Attribute) and mod is not None:
+            try:
+                return self.tree.resolve(mod, f, fr.fn)
+            except Exception:  # noqa: BLE001
+                return None
+        return None
+
+    def opaque_calls(self, expr: ast.AST) -> list[str]:
+        """Calls inside a symbolic value that may hide logic of the package: a package function / class that
+        was not followed, a local function object, a lambda that was not reduced."""
+        out = []
+        for n in ast.walk(expr):
+            if isinstance(n, ast.Attribute):
+                g = self._property_getter(n, self.top)
+                body = [s for s in g.node.body if not (isinstance(s, ast.Expr) and isinstance(s.value, ast.Constant))] if g is not None else []
+                if g is not None and not (len(body) == 1 and isinstance(body[0], ast.Return) and isinstance(body[0].value, ast.Attribute) and isinstance(body[0].value.value, ast.Name)):
+                    out.append(unparse(n)[:60])  # a property of the package with a non-trivial getter that was not followed
+            if not isinstance(n, ast.Call) or is_product(n):
+                continue
+            f = n.func
+            last = f.attr if isinstance(f, ast.Attribute) else f.id if isinstance(f, ast.Name) else None
+            if last in self.atoms:
+                continue
+            if isinstance(f, ast.Lambda) or (isinstance(f, ast.Name) and "@" in f.id):
+                out.append(unparse(f)[:60])
+                continue
+            name = self._fname(f)
+            if name and (name in self.tree.funcs or name in self.tree.classes):
+                out.append(unparse(f)[:60])
+        return out
 
     # ------------------------------------------------------------ expressions
     def ev(self, node, st: _State, fr: _Frame, shadow: frozenset = frozenset()):
@@ -199,6 +453,10 @@ class SymExec:
             if isinstance(node.ctx, ast.Load) and node.id not in shadow and node.id in st.env:
                 return st.env[node.id]
             return node
+        if isinstance(node, ast.IfExp):
+            choice = st.env.get(("ifexp", id(node)))
+            if choice is not None:
+                return self.ev(node.body if choice else node.orelse, st, fr, shadow)
         if isinstance(node, ast.Call):
             done = st.env.get(("call", id(node)))
             if done is not None:
@@ -207,11 +465,18 @@ class SymExec:
                 v = self._inline_branch_free(node, st, fr)
                 if v is not None:
                     return v
+        if isinstance(node, ast.Attribute) and isinstance(node.ctx, ast.Load) and not shadow:
+            v = self._property_value(node, st, fr)
+            if v is not None:
+                return v
         if isinstance(node, ast.NamedExpr) and isinstance(node.target, ast.Name):
             v = self.ev(node.value, st, fr, shadow)
             st.env[node.target.id] = v
             return v
         if isinstance(node, (ast.ListComp, ast.GeneratorExp)) and not shadow:
+            done = st.env.get(("comp", id(node)))
+            if done is not None:
+                return done
             seq = self._comprehension(node, st, fr)
             if seq is not None:
                 return seq
@@ -223,61 +488,254 @@ class SymExec:
         new = copy.copy(node)
         for fld, value in ast.iter_fields(node):
             setattr(new, fld, self.ev(value, st, fr, shadow))
-        if (isinstance(new, ast.Call) and isinstance(new.func, ast.Name) and new.func.id in {"list", "tuple"} and new.func.id not in st.env
-                and len(new.args) == 1 and not new.keywords and _is_seq(new.args[0])):
-            return new.args[0]
+        if isinstance(new, ast.Call):
+            return self._simplify_call(new, st, fr, shadow)
         return new
 
-    def _element(self, it: ast.AST):
-        """(variable, generic element, source, filters) of iterating the symbolic value ``it``."""
+    def _property_getter(self, node: ast.Attribute, fr: _Frame) -> FuncInfo | None:
+        """The getter if ``node`` reads a property defined in the package (never the accessor of the partner
+        mapping: the rules recognise the mapping by that name)."""
+        mod = getattr(node, "_module", None)
+        if mod is None or node.attr.split("__")[-1] == MAPPING:
+            return None
+        try:
+            q = self.tree.resolve(mod, node, fr.fn)
+        except Exception:  # noqa: BLE001
+            return None
+        g = self.tree.funcs.get(q) if q else None
+        if g is None or g.cls is None or not isinstance(g.node, ast.FunctionDef):
+            return None
+        if not {unparse(d) for d in g.node.decorator_list} & PROPERTY_DECORATORS:
+            return None
+        return g
+
+    def _property_value(self, node: ast.Attribute, st: _State, fr: _Frame):
+        """``obj.prop`` for a property of the package whose getter is branch-free: the value it returns."""
+        g = self._property_getter(node, fr)
+        if g is None or g.qual in fr.stack or fr.depth >= self.max_depth:
+            return None
+        a = g.node.args
+        params = [x.arg for x in [*a.posonlyargs, *a.args]]
+        if len(params) != 1 or a.vararg or a.kwarg or a.kwonlyargs:
+            return None
+        inner = st.fork()
+        inner.env = {params[0]: self.ev(node.value, st, fr)}
+        inner.appends = {}
+        frame = _Frame(g, fr.depth + 1, f"{fr.chain}{getattr(node, 'lineno', 0)}:{getattr(node, 'col_offset', 0)}>", (*fr.stack, g.qual))
+        try:
+            results = [(s, val) for s, status, val in self._block(g.node.body, inner, frame) if status in {"next", "return"}]
+        except _Unsupported:
+            return None
+        if len(results) != 1 or len(results[0][0].facts) != len(st.facts) or results[0][1] is None or is_none(results[0][1]):
+            return None
+        return results[0][1]
+
+    def _simplify_call(self, new: ast.Call, st: _State, fr: _Frame, shadow: frozenset = frozenset()):
+        """Calls whose value is a sequence / a product / the expression a function object computes."""
+        plain = not any(isinstance(a, ast.Starred) for a in new.args) and all(k.arg for k in new.keywords)
+        kws = {k.arg: k.value for k in new.keywords if k.arg}
+        args, f = new.args, new.func
+        site = self._site(new, fr)
+        if plain and not kws and (isinstance(f, ast.Lambda) or (isinstance(f, ast.Call) and self._fname(f.func, fr) in {"operator.attrgetter", "operator.itemgetter", "functools.partial"})):
+            v = self._apply(f, list(args), new, st, fr)
+            if v is not None:
+                return v
+        if isinstance(f, ast.Name) and f.id in shadow:
+            return new
+        name = self._fname(f, fr)
+        if name is None:
+            return new
+        if name in SAME_ELEMENTS and plain and len(args) == 1 and not kws and _is_seq(args[0]):
+            return args[0]
+        if name == "map" and plain and len(args) == 2 and not kws:
+            e = self._element(args[1], site, fr)
+            v = self._apply(args[0], [e.elem], new, st, fr)
+            if v is not None:
+                return self._seq(v, e.var, e.src, e.ifs, (*e.sites, site), e.reordered)
+        if name == "filter" and plain and len(args) == 2 and not kws:
+            e = self._element(args[1], site, fr)
+            cond = e.elem if is_none(args[0]) else self._apply(args[0], [e.elem], new, st, fr)
+            if cond is not None:
+                return self._seq(e.elem, e.var, e.src, [*e.ifs, cond], (*e.sites, site), e.reordered)
+        if name == "functools.reduce" and plain and not kws and len(args) in (2, 3) and self._is_mul(args[0], fr):
+            return self._product_of(new, args[1], args[2] if len(args) == 3 else ast.Constant(1), fr)
+        if name in PROD_FUNCS and plain and set(kws) <= {"start"} and (len(args) == 1 or (len(args) == 2 and not kws and name != "math.prod")):
+            return self._product_of(new, args[0], args[1] if len(args) == 2 else kws.get("start", ast.Constant(1)), fr)
+        if name in {"sympy.Mul", "sympy.core.mul.Mul"} and len(new.args) == 1 and isinstance(new.args[0], ast.Starred) and not new.keywords:
+            return self._product_of(new, new.args[0].value, ast.Constant(1), fr)
+        return new
+
+    def _is_mul(self, f: ast.AST, fr: _Frame) -> bool:
+        if isinstance(f, ast.Lambda):
+            a = f.args
+            ps = [x.arg for x in [*a.posonlyargs, *a.args]]
+            b = f.body
+            return (len(ps) == 2 and not (a.vararg or a.kwarg or a.kwonlyargs) and isinstance(b, ast.BinOp) and isinstance(b.op, ast.Mult)
+                    and isinstance(b.left, ast.Name) and isinstance(b.right, ast.Name) and {b.left.id, b.right.id} == set(ps))
+        return self._fname(f, fr) in MUL_FUNCS
+
+    def _product_of(self, call: ast.Call, seq_value: ast.AST, init: ast.AST, fr: _Frame) -> ast.Call:
+        site = self._site(call, fr)
+        e = self._element(seq_value, site, fr, commutative=True)
+        none = e.empty or any(is_marker(c) and c.id.startswith("<0 elements") for c in e.ifs)
+        seq = self._seq(e.elem, e.var, e.src, e.ifs, (*e.sites, site), e.reordered)
+        return _make_product(site, e.sites[-1] if e.sites else site, init, seq, [] if none else [(e.elem, call)])
+
+    def _apply(self, f: ast.AST, args: list[ast.AST], at: ast.AST, st: _State, fr: _Frame, keywords: list | None = None):
+        """The (symbolic) value of calling the function object ``f`` (already evaluated) on evaluated arguments;
+        None if ``f`` is not understood."""
+        keywords = list(keywords or [])
+        if isinstance(f, ast.Lambda):
+            a = f.args
+            params = [x.arg for x in [*a.posonlyargs, *a.args]]
+            if a.vararg or a.kwarg or a.kwonlyargs or keywords or len(params) < len(args) or len(params) - len(a.defaults) > len(args):
+                return None
+            mapping = dict(zip(params, args))
+            for p, d in zip(reversed(params), reversed(a.defaults)):
+                mapping.setdefault(p, d)
+            return self._post(_Subst(mapping).visit(f.body), st, fr)
+        if isinstance(f, ast.Call):
+            inner = self._fname(f.func, fr)
+            consts = all(isinstance(x, ast.Constant) for x in f.args) and not f.keywords
+            if inner == "operator.attrgetter" and len(args) == 1 and not keywords and f.args and consts and all(isinstance(x.value, str) for x in f.args):
+                vals = []
+                for x in f.args:
+                    v = args[0]
+                    for part in x.value.split("."):
+                        v = ast.Attribute(value=v, attr=part, ctx=ast.Load())
+                    vals.append(v)
+                return vals[0] if len(vals) == 1 else ast.Tuple(elts=vals, ctx=ast.Load())
+            if inner == "operator.itemgetter" and len(args) == 1 and not keywords and f.args and consts:
+                vals = [ast.Subscript(value=args[0], slice=x, ctx=ast.Load()) for x in f.args]
+                return vals[0] if len(vals) == 1 else ast.Tuple(elts=vals, ctx=ast.Load())
+            if inner == "functools.partial" and f.args and not any(isinstance(x, ast.Starred) for x in f.args) and all(k.arg for k in f.keywords):
+                return self._apply(f.args[0], [*f.args[1:], *args], at, st, fr, [*f.keywords, *keywords])
+            return None
+        if not isinstance(f, (ast.Name, ast.Attribute)):
+            return None
+        call = ast.Call(func=f, args=list(args), keywords=keywords)
+        ast.copy_location(call, at)
+        for attr in ("_module", "_parent"):
+            if hasattr(at, attr):
+                setattr(call, attr, getattr(at, attr))
+        call._evaluated = True  # type: ignore[attr-defined]
+        v = self._inline_branch_free(call, st, fr)
+        if v is not None:
+            return v
+        return self._simplify_call(call, st, fr)
+
+    def _post(self, expr: ast.AST, st: _State, fr: _Frame) -> ast.AST:
+        """Calls inside an already evaluated expression (the body of a reduced lambda): follow branch-free
+        package helpers, bring sequences / products into normal form."""
+        if not isinstance(expr, ast.AST) or isinstance(expr, ast.Lambda) or _is_seq(expr) or is_product(expr):
+            return expr
+        new = copy.copy(expr)
+        for fld, value in ast.iter_fields(expr):
+            if isinstance(value, list):
+                setattr(new, fld, [self._post(x, st, fr) if isinstance(x, ast.AST) else x for x in value])
+            elif isinstance(value, ast.AST):
+                setattr(new, fld, self._post(value, st, fr))
+        if isinstance(new, ast.Call):
+            if isinstance(new.func, (ast.Name, ast.Attribute)) and hasattr(new, "_module"):
+                new._evaluated = True  # type: ignore[attr-defined]
+                v = self._inline_branch_free(new, st, fr)
+                if v is not None:
+                    return v
+            return self._simplify_call(new, st, fr)
+        return new
+
+    def _element(self, it: ast.AST, site: str, fr: _Frame, commutative: bool = False) -> _Elem:
+        """What iterating the symbolic value ``it`` yields."""
+        reordered = False
+        while isinstance(it, ast.Call) and it.args and not isinstance(it.args[0], ast.Starred):
+            name = self._fname(it.func, fr)
+            if name in SAME_ELEMENTS and len(it.args) == 1 and not it.keywords:
+                it = it.args[0]
+            elif name in REORDERING and len(it.args) == 1 and {k.arg for k in it.keywords} <= {"key", "reverse"}:
+                reordered, it = True, it.args[0]
+            else:
+                break
+        if isinstance(it, ast.Starred):
+            it = it.value
         if _is_seq(it):
             g = it.generators[0]
-            return g.target, it.elt, g.iter, list(g.ifs)
-        name = self._each(it)
-        return ast.Name(id=name, ctx=ast.Store()), ast.Name(id=name, ctx=ast.Load()), it, []
+            return _Elem(g.target, it.elt, g.iter, list(g.ifs), tuple(getattr(it, "_sites", ())), (reordered or getattr(it, "_reordered", False)) and not commutative)
+        reordered = reordered and not commutative
+        if _is_empty_literal(it):
+            var = ast.Name(id=self._each(it, site), ctx=ast.Store())
+            return _Elem(var, ast.Constant(None), it, [_marker("0 elements: the iterable is empty")], (), reordered, empty=True)
+        if isinstance(it, ast.Call) and isinstance(it.func, ast.Attribute) and it.func.attr in {"items", "keys", "values"} and not it.args and not it.keywords:
+            base = it.func.value
+            key = self._each(base, site)
+            k = ast.Name(id=key, ctx=ast.Load())
+            item = ast.Subscript(value=base, slice=k, ctx=ast.Load())
+            elem = {"items": ast.Tuple(elts=[k, item], ctx=ast.Load()), "keys": k, "values": item}[it.func.attr]
+            return _Elem(ast.Name(id=key, ctx=ast.Store()), elem, base, [], (), reordered)
+        if isinstance(it, ast.Call) and self._fname(it.func, fr) == "enumerate" and len(it.args) in (1, 2) and not it.keywords:
+            e = self._element(it.args[0], site, fr, commutative)
+            idx = ast.Name(id=f"<index of {e.var.id if isinstance(e.var, ast.Name) else unparse(e.var)}>", ctx=ast.Load())
+            return _Elem(e.var, ast.Tuple(elts=[idx, e.elem], ctx=ast.Load()), e.src, e.ifs, e.sites, e.reordered or reordered, e.empty)
+        name = self._each(it, site)
+        return _Elem(ast.Name(id=name, ctx=ast.Store()), ast.Name(id=name, ctx=ast.Load()), it, [], (), reordered)
 
     @staticmethod
-    def _seq(elt: ast.AST, var: ast.AST, src: ast.AST, ifs: list) -> ast.ListComp:
-        seq = ast.ListComp(elt=elt, generators=[ast.comprehension(target=var, iter=src, ifs=ifs, is_async=0)])
+    def _seq(elt: ast.AST, var: ast.AST, src: ast.AST, ifs: list, sites: tuple = (), reordered: bool = False) -> ast.ListComp:
+        seq = ast.ListComp(elt=elt, generators=[ast.comprehension(target=var, iter=src, ifs=list(ifs), is_async=0)])
         seq._seq = True  # type: ignore[attr-defined]
+        seq._sites = tuple(sites)  # type: ignore[attr-defined]
+        seq._reordered = reordered  # type: ignore[attr-defined]
         return seq
 
-    def _comprehension(self, node, st: _State, fr: _Frame):
+    def _comprehension(self, node, st: _State, fr: _Frame, fork: bool = False):
+        """The sequence value of a comprehension with one generator.  ``fork``: the element is evaluated like a
+        loop body - the paths of the package helpers it calls fork the state (returns the forked states, each
+        with the value bound); otherwise only branch-free helpers are followed (returns the value)."""
         if len(node.generators) != 1:
             return None
         gen = node.generators[0]
-        if gen.is_async or not isinstance(gen.target, ast.Name):
+        if gen.is_async:
             return None
-        var, elem, src, ifs = self._element(self.ev(gen.iter, st, fr))
-        name = gen.target.id
+        site = self._site(node, fr)
+        e = self._element(self.ev(gen.iter, st, fr), site, fr)
+        names = [n.id for n in ast.walk(gen.target) if isinstance(n, ast.Name)]
         missing = object()
-        old = st.env.get(name, missing)
-        st.env[name] = elem
-        try:
-            elt = self.ev(node.elt, st, fr)
-            ifs = ifs + [self.ev(c, st, fr) for c in gen.ifs]
-        finally:
-            if old is missing:
-                st.env.pop(name, None)
-            else:
-                st.env[name] = old
-        return self._seq(elt, var, src, ifs)
+        old = {n: st.env.get(n, missing) for n in names}
+        self._assign(gen.target, e.elem, st, fr, node)
+        states = self._prepare([*gen.ifs, node.elt], st, fr) if fork and not e.empty else [st]
+        value = None
+        for s in states:
+            elt = self.ev(node.elt, s, fr)
+            ifs = list(e.ifs) + [self.ev(c, s, fr) for c in gen.ifs]
+            for n, v in old.items():
+                if v is missing:
+                    s.env.pop(n, None)
+                else:
+                    s.env[n] = v
+            value = self._seq(elt, e.var, e.src, ifs, (*e.sites, site), e.reordered)
+            if fork:
+                s.env[("comp", id(node))] = value
+        return states if fork else value
 
     # ------------------------------------------------------------------ calls
     def _callee(self, call: ast.Call, fr: _Frame) -> FuncInfo | None:
         if not hasattr(call, "_module"):
             return None
         name = call.func.attr if isinstance(call.func, ast.Attribute) else call.func.id if isinstance(call.func, ast.Name) else None
-        if name is None or name == RAW_SUFFIX:
+        if name is None or name in self.atoms:
             return None
-        q = self.tree.callee(call, fr.fn)
+        try:
+            q = self.tree.callee(call, fr.fn)
+        except Exception:  # noqa: BLE001
+            return None
         tgt = self.tree.funcs.get(q) if q else None
         if tgt is None or tgt.qual in fr.stack or fr.depth >= self.max_depth or not isinstance(tgt.node, ast.FunctionDef):
             return None
-        decorators = {unparse(d) for d in tgt.node.decorator_list}
-        if decorators - {"staticmethod", "override", "typing.override"}:
+        if tgt.outer is not None and tgt.outer.qual != fr.fn.qual:
+            return None  # a closure of another function: its free variables are not in reach
+        decorators = {unparse(d.func if isinstance(d, ast.Call) else d) for d in tgt.node.decorator_list}
+        if decorators - TRANSPARENT_DECORATORS:
             return None
-        if any(isinstance(n, (ast.Yield, ast.YieldFrom, ast.Await)) for n in walk_function(tgt.node, nested=False)):
+        if any(isinstance(n, ast.Await) for n in walk_function(tgt.node, nested=False)):
             return None
         return tgt
 
@@ -285,21 +743,22 @@ class SymExec:
         a = tgt.node.args
         if a.vararg or a.kwarg or any(isinstance(x, ast.Starred) for x in call.args) or any(k.arg is None for k in call.keywords):
             return None
+        value = (lambda x: x) if getattr(call, "_evaluated", False) else (lambda x: self.ev(x, st, fr))
         positional = [x.arg for x in [*a.posonlyargs, *a.args]]
         env: dict = {}
-        if tgt.cls is not None and "staticmethod" not in {unparse(d) for d in tgt.node.decorator_list}:
+        if tgt.cls is not None and tgt.outer is None and "staticmethod" not in {unparse(d) for d in tgt.node.decorator_list}:
             if not positional or not isinstance(call.func, ast.Attribute):
                 return None
-            env[positional.pop(0)] = self.ev(call.func.value, st, fr)
+            env[positional.pop(0)] = value(call.func.value)
         if len(call.args) > len(positional):
             return None
         for p, arg in zip(positional, call.args):
-            env[p] = self.ev(arg, st, fr)
+            env[p] = value(arg)
         names = set(positional) | {x.arg for x in a.kwonlyargs}
         for k in call.keywords:
             if k.arg not in names or k.arg in env:
                 return None
-            env[k.arg] = self.ev(k.value, st, fr)
+            env[k.arg] = value(k.value)
         defaults = dict(zip(reversed([x.arg for x in [*a.posonlyargs, *a.args]]), reversed(a.defaults)))
         defaults.update({x.arg: d for x, d in zip(a.kwonlyargs, a.kw_defaults) if d is not None})
         for p in names:
@@ -318,9 +777,28 @@ class SymExec:
         env = self._bind(call, tgt, st, fr)
         if env is None:
             return None
+        is_gen = any(isinstance(n, (ast.Yield, ast.YieldFrom)) for n in walk_function(tgt.node, nested=False))
         inner = st.fork()
-        inner.env, inner.appends = env, {}
-        frame = _Frame(tgt, fr.depth + 1, f"{fr.chain}{getattr(call, 'lineno', 0)}:{getattr(call, 'col_offset', 0)}>", (*fr.stack, tgt.qual))
+        if tgt.outer is not None:  # a closure: its free variables are the (late-bound) locals of the running frame
+            inner.env = {**{k: v for k, v in st.env.items() if isinstance(k, str)}, **env}
+        else:
+            inner.env = env
+        inner.appends = {}
+        # a list of the caller that is handed down and filled by the callee (an accumulator passed down instead of a
+        # result returned and merged): appends of the callee are appends to the caller's list
+        rebound = {n.id for n in walk_function(tgt.node, nested=False) if isinstance(n, ast.Name) and isinstance(n.ctx, ast.Store)}
+        handed_down: dict[str, str] = {}
+        if not getattr(call, "_evaluated", False):
+            for param, arg in self._arg_nodes(call, tgt).items():
+                if isinstance(arg, ast.Name) and param not in rebound and param in env:
+                    if arg.id in st.appends:
+                        handed_down[param] = arg.id
+                        inner.appends[param] = list(st.appends[arg.id])
+                    elif _is_empty_list(st.env.get(arg.id)):
+                        handed_down[param] = arg.id
+        if is_gen:
+            inner.env["<yield>"] = ast.List(elts=[], ctx=ast.Load())
+        frame = _Frame(tgt, fr.depth + 1, f"{fr.chain}{getattr(call, 'lineno', 0)}:{getattr(call, 'col_offset', 0)}>", (*fr.stack, tgt.qual), gen=is_gen)
         try:
             results = self._block(tgt.node.body, inner, frame)
         except _Unsupported:
@@ -329,33 +807,60 @@ class SymExec:
         for s, status, val in results:
             if status not in {"next", "return"}:
                 continue
+            if is_gen:
+                val = s.env.get("<yield>")
+            callee_env, callee_appends = s.env, s.appends
             s.env = dict(st.env)
             s.appends = {k: list(v) for k, v in st.appends.items()}
+            for param, name in handed_down.items():
+                if name in s.appends:
+                    s.appends[name] = list(callee_appends.get(param, s.appends[name]))
+                elif _is_seq(callee_env.get(param)):
+                    s.env[name] = callee_env[param]
+                elif not _is_empty_list(callee_env.get(param)):
+                    s.env[name] = self._fresh(name, call, fr)  # filled in a way that is not followed
             s.env[("call", id(call))] = val if val is not None else ast.Constant(None)
             out.append(s)
+        return out
+
+    @staticmethod
+    def _arg_nodes(call: ast.Call, tgt: FuncInfo) -> dict[str, ast.AST]:
+        """parameter -> argument expression as written (no defaults; {} if the call cannot be matched)."""
+        a = tgt.node.args
+        if a.vararg or a.kwarg or any(isinstance(x, ast.Starred) for x in call.args) or any(k.arg is None for k in call.keywords):
+            return {}
+        positional = [x.arg for x in [*a.posonlyargs, *a.args]]
+        if tgt.cls is not None and tgt.outer is None and "staticmethod" not in {unparse(d) for d in tgt.node.decorator_list} and positional:
+            positional.pop(0)
+        out = dict(zip(positional, call.args))
+        out.update({k.arg: k.value for k in call.keywords})
         return out
 
     def _inline_branch_free(self, call: ast.Call, st: _State, fr: _Frame):
         res = self._inline(call, st, fr)
         if res is None or len(res) != 1 or len(res[0].facts) != len(st.facts):
             if self._is_package_call(call, fr):
-                self.opaque_calls.add(unparse(call.func))
+                self.opaque.add(unparse(call.func))
             return None
         return res[0].env[("call", id(call))]
 
     def _is_package_call(self, call: ast.Call, fr: _Frame) -> bool:
         if not hasattr(call, "_module"):
             return False
-        name = call.func.attr if isinstance(call.func, ast.Attribute) else None
-        if name == RAW_SUFFIX:
+        name = call.func.attr if isinstance(call.func, ast.Attribute) else call.func.id if isinstance(call.func, ast.Name) else None
+        if name in self.atoms:
             return False
-        q = self.tree.callee(call, fr.fn)
+        try:
+            q = self.tree.callee(call, fr.fn)
+        except Exception:  # noqa: BLE001
+            return False
         return bool(q) and q in self.tree.funcs
 
     @staticmethod
-    def _unconditional_calls(expr: ast.AST) -> list[ast.Call]:
-        """Calls inside ``expr`` that are evaluated whenever ``expr`` is (post-order: arguments first)."""
-        out: list[ast.Call] = []
+    def _unconditional(expr: ast.AST) -> list[ast.AST]:
+        """Calls and conditional expressions inside ``expr`` that are evaluated whenever ``expr`` is
+        (post-order: arguments first)."""
+        out: list[ast.AST] = []
 
         def visit(n: ast.AST) -> None:
             if isinstance(n, ast.BoolOp):
@@ -363,9 +868,12 @@ class SymExec:
                 return
             if isinstance(n, ast.IfExp):
                 visit(n.test)
+                out.append(n)
                 return
             if isinstance(n, (ast.ListComp, ast.SetComp, ast.GeneratorExp, ast.DictComp)):
                 visit(n.generators[0].iter)
+                if isinstance(n, (ast.ListComp, ast.GeneratorExp)) and len(n.generators) == 1 and not n.generators[0].is_async:
+                    out.append(n)
                 return
             if isinstance(n, ast.Lambda):
                 return
@@ -378,17 +886,34 @@ class SymExec:
         return out
 
     def _prepare(self, exprs: list, st: _State, fr: _Frame) -> list[_State]:
-        """Fork ``st`` over the paths of the package functions called (unconditionally) in ``exprs``."""
+        """Fork ``st`` over the paths of the package functions called (unconditionally) in ``exprs`` and over
+        the arms of the conditional expressions evaluated (unconditionally) in them."""
         states = [st]
         for e in exprs:
             if e is None:
                 continue
-            for call in self._unconditional_calls(e):
+            for point in self._unconditional(e):
                 nxt = []
                 for s in states:
-                    res = self._inline(call, s, fr)
+                    if isinstance(point, ast.IfExp):
+                        test = self.ev(point.test, s, fr)
+                        known = _truth(test)
+                        for outcome in (True, False):
+                            if known is not None and known != outcome:
+                                continue
+                            b = s.fork() if known is None else s
+                            b.facts.append((test, outcome))
+                            b.env[("ifexp", id(point))] = outcome
+                            nxt.append(b)
+                        continue
+                    if isinstance(point, (ast.ListComp, ast.GeneratorExp)):
+                        nxt += self._comprehension(point, s, fr, fork=True)
+                        continue
+                    res = self._inline(point, s, fr)
                     nxt += [s] if res is None else res
                 states = nxt
+                if len(states) > MAX_STATES:
+                    raise AnalysisError(f"{self.fn.qual}: path explosion in the symbolic execution")
         return states
 
     # -------------------------------------------------------------- statements
@@ -407,7 +932,7 @@ class SymExec:
                 raise AnalysisError(f"{self.fn.qual}: path explosion in the symbolic execution")
         return states
 
-    def _assign(self, target: ast.AST, value: ast.AST, st: _State, fr: _Frame, stmt: ast.stmt) -> None:
+    def _assign(self, target: ast.AST, value: ast.AST, st: _State, fr: _Frame, stmt: ast.AST) -> None:
         if isinstance(target, ast.Name):
             st.env[target.id] = value
         elif isinstance(target, (ast.Tuple, ast.List)):
@@ -422,18 +947,19 @@ class SymExec:
                         if isinstance(n, ast.Name):
                             st.env[n.id] = self._fresh(n.id, stmt, fr)
         elif isinstance(target, (ast.Subscript, ast.Attribute)):
+            if isinstance(target, ast.Subscript) and isinstance(stmt, ast.stmt):
+                st.stores.append((self.ev(target.value, st, fr), len(st.facts), stmt))
             base = target
             while isinstance(base, (ast.Subscript, ast.Attribute)):
                 base = base.value
             if isinstance(base, ast.Name) and base.id in st.env and base.id != "self":
-                st.env[base.id] = self._fresh(base.id, stmt, fr)  # the object changed: what was known about it is void
+                old = st.env[base.id]
+                if not isinstance(old, (ast.Attribute, ast.Name)):  # (an alias of an object that lives elsewhere stays that alias)
+                    st.env[base.id] = self._fresh(base.id, stmt, fr)  # the object changed: what was known about it is void
 
     def _stmt(self, stmt: ast.stmt, st: _State, fr: _Frame):
-        top = fr.depth == 0
-
         def reached(s: _State, value) -> None:
-            if top:
-                s.reached[id(stmt)] = (len(s.facts), value)
+            s.reached.append((id(stmt), len(s.facts), value))
 
         if isinstance(stmt, (ast.Assign, ast.AnnAssign)):
             if stmt.value is None:
@@ -441,6 +967,8 @@ class SymExec:
             out = []
             for s in self._prepare([stmt.value], st, fr):
                 v = self.ev(stmt.value, s, fr)
+                if isinstance(v, ast.BinOp) and isinstance(v.op, ast.Mult) and not hasattr(v, "_origin"):
+                    v._origin = stmt  # type: ignore[attr-defined]
                 reached(s, v)
                 for t in stmt.targets if isinstance(stmt, ast.Assign) else [stmt.target]:
                     self._assign(t, v, s, fr, stmt)
@@ -456,22 +984,29 @@ class SymExec:
                     if name in s.appends and isinstance(stmt.op, ast.Add) and isinstance(v, (ast.List, ast.Tuple)):
                         s.appends[name] += list(v.elts)
                     else:
-                        s.env[name] = ast.BinOp(left=s.env.get(name, ast.Name(id=name, ctx=ast.Load())), op=stmt.op, right=v)
+                        new = ast.BinOp(left=s.env.get(name, ast.Name(id=name, ctx=ast.Load())), op=stmt.op, right=v)
+                        new._origin = stmt  # type: ignore[attr-defined]
+                        s.env[name] = new
                 else:
                     self._assign(stmt.target, v, s, fr, stmt)
                 out.append((s, "next", None))
             return out
         if isinstance(stmt, ast.Expr):
+            if isinstance(stmt.value, (ast.Yield, ast.YieldFrom)):
+                return self._yield(stmt, st, fr)
             out = []
             for s in self._prepare([stmt.value], st, fr):
                 v = self.ev(stmt.value, s, fr)
                 reached(s, v)
                 c = stmt.value
+                if isinstance(c, ast.Call) and isinstance(c.func, ast.Attribute) and c.func.attr in MUTATORS:
+                    if not isinstance(c.func.value, ast.Name) or c.func.value.id not in s.appends:
+                        s.stores.append((self.ev(c.func.value, s, fr), len(s.facts), stmt))
                 if isinstance(c, ast.Call) and isinstance(c.func, ast.Attribute) and isinstance(c.func.value, ast.Name) and c.func.attr in MUTATORS:
                     name = c.func.value.id
                     if name in s.appends and c.func.attr == "append" and len(c.args) == 1 and not c.keywords:
-                        s.appends[name].append(v.args[0] if isinstance(v, ast.Call) else self.ev(c.args[0], s, fr))
-                    elif name in s.env:
+                        s.appends[name].append(v.args[0] if isinstance(v, ast.Call) and v.args else self.ev(c.args[0], s, fr))
+                    elif name in s.env and not isinstance(s.env[name], (ast.Attribute, ast.Name)):
                         s.env[name] = self._fresh(name, stmt, fr)
                 out.append((s, "next", None))
             return out
@@ -480,6 +1015,9 @@ class SymExec:
             for s in self._prepare([stmt.value], st, fr):
                 v = self.ev(stmt.value, s, fr) if stmt.value is not None else ast.Constant(None)
                 reached(s, v)
+                s.last_return = stmt
+                if fr.depth == 0:
+                    s.top_return = stmt
                 out.append((s, "return", v))
             return out
         if isinstance(stmt, ast.If):
@@ -496,6 +1034,18 @@ class SymExec:
             return out
         if isinstance(stmt, ast.For):
             return self._for(stmt, st, fr)
+        if isinstance(stmt, ast.Try):
+            return self._try(stmt, st, fr)
+        if isinstance(stmt, ast.While):
+            loop = self._while_as_for(stmt, st)
+            if loop is None:
+                raise _Unsupported(f"a `while` loop that is not a plain walk over a sequence ({self.tree.loc(stmt)})")
+            out = []
+            for s, status, val in self._for(loop, st, fr):
+                if status == "next" and isinstance(loop._drained, str):  # type: ignore[attr-defined]
+                    s.env[loop._drained] = ast.List(elts=[], ctx=ast.Load())  # type: ignore[attr-defined]
+                out.append((s, status, val))
+            return out
         if isinstance(stmt, ast.With):
             for item in stmt.items:
                 if item.optional_vars is not None:
@@ -516,10 +1066,147 @@ class SymExec:
                 if isinstance(t, ast.Name):
                     st.env.pop(t.id, None)
             return [(st, "next", None)]
-        if isinstance(stmt, (ast.FunctionDef, ast.ClassDef)):
+        if isinstance(stmt, ast.FunctionDef):
+            st.env.pop(stmt.name, None)  # the name now refers to the nested function (resolved statically when it is called)
+            return [(st, "next", None)]
+        if isinstance(stmt, ast.ClassDef):
             st.env[stmt.name] = self._fresh(stmt.name, stmt, fr)
             return [(st, "next", None)]
         raise _Unsupported(f"a `{type(stmt).__name__.lower()}` statement ({self.tree.loc(stmt)})")
+
+    def _yield(self, stmt: ast.Expr, st: _State, fr: _Frame):
+        """``yield e`` in a loop of a generator function feeds the implicit sequence ``<yield>`` the call evaluates
+        to; ``yield from S`` (outside loops, nothing yielded before) makes ``S`` that sequence."""
+        if not fr.gen:
+            raise _Unsupported(f"a yield outside a followed generator function ({self.tree.loc(stmt)})")
+        y = stmt.value
+        out = []
+        for s in self._prepare([y.value], st, fr):
+            v = self.ev(y.value, s, fr) if y.value is not None else ast.Constant(None)
+            if isinstance(y, ast.Yield) and "<yield>" in s.appends:
+                s.appends["<yield>"].append(v)
+            elif isinstance(y, ast.YieldFrom) and "<yield>" not in s.appends and _is_empty_list(s.env.get("<yield>")):
+                site = self._site(stmt, fr)
+                e = self._element(v, site, fr)
+                s.env["<yield>"] = self._seq(e.elem, e.var, e.src, e.ifs, (*e.sites, site), e.reordered)
+            else:
+                raise _Unsupported(f"a yield outside a single loop ({self.tree.loc(stmt)})")
+            out.append((s, "next", None))
+        return out
+
+    def _try(self, stmt: ast.Try, st: _State, fr: _Frame):
+        stored = {n.id for b in stmt.body for n in ast.walk(b) if isinstance(n, ast.Name) and isinstance(n.ctx, ast.Store)}
+        lookups = [n for b in stmt.body for n in ast.walk(b) if isinstance(n, ast.Subscript) and isinstance(n.ctx, ast.Load) and not isinstance(n.slice, (ast.Constant, ast.Slice))]
+        calls = [n for b in stmt.body for n in ast.walk(b) if isinstance(n, ast.Call)]
+        exact = (len(stmt.body) == 1 and isinstance(stmt.body[0], (ast.Assign, ast.AnnAssign, ast.Return, ast.Expr, ast.AugAssign)) and len(lookups) == 1 and not calls
+                 and not ({n.id for n in ast.walk(lookups[0]) if isinstance(n, ast.Name)} & stored))
+
+        def catches_key(h: ast.ExceptHandler) -> bool:
+            types = [] if h.type is None else (h.type.elts if isinstance(h.type, ast.Tuple) else [h.type])
+            return any(unparse(t).split(".")[-1] in {"KeyError", "LookupError"} for t in types)
+
+        where = self.tree.loc(stmt)
+        out = []
+        key_fact = None
+        if exact and any(catches_key(h) for h in stmt.handlers):
+            lk = lookups[0]
+            key_fact = ast.Compare(left=self.ev(lk.slice, st, fr), ops=[ast.In()], comparators=[self.ev(lk.value, st, fr)])
+        # the exceptional paths (the body is a single statement or the path is marked imprecise)
+        for h in stmt.handlers:
+            b = st.fork()
+            if key_fact is not None and catches_key(h):
+                b.facts.append((key_fact, False))
+            else:
+                b.imprecise.append(f"the exception handler of the try statement at {where}")
+                for name in stored:
+                    b.env[name] = self._fresh(name, stmt, fr)
+            if h.name:
+                b.env[h.name] = self._fresh(h.name, h, fr)
+            out += self._block(h.body, b, fr)
+        # the normal path
+        if key_fact is not None:
+            st.facts.append((key_fact, True))
+        elif stmt.handlers and not exact:
+            pass  # (the normal path is exact: every statement of the body completed)
+        res = self._block(stmt.body, st, fr)
+        for s, status, val in res:
+            if status == "raise" and stmt.handlers:
+                s.imprecise.append(f"a raise inside the try statement at {where}")
+            if status == "next" and stmt.orelse:
+                out += self._block(stmt.orelse, s, fr)
+            else:
+                out.append((s, status, val))
+        if stmt.finalbody:
+            final = []
+            for s, status, val in out:
+                for s2, status2, val2 in self._block(stmt.finalbody, s, fr):
+                    final.append((s2, status2, val2) if status2 != "next" else (s2, status, val))
+            out = final
+        return out
+
+    @staticmethod
+    def _while_as_for(stmt: ast.While, st: _State) -> ast.For | None:
+        """The ``for`` loop a ``while`` loop spells out, for the two plain walks over a sequence:
+        ``while pending: x = pending.pop() ...`` (drains a list; the order does not matter to the rules that
+        accept it: the result is marked re-ordered) and ``while i < len(xs): x = xs[i]; ...; i += 1``."""
+        body = list(stmt.body)
+        if not body:
+            return None
+        first = body[0]
+        uses = lambda name, nodes: sum(isinstance(n, ast.Name) and n.id == name for b in nodes for n in ast.walk(b))  # noqa: E731
+        loop = None
+        if isinstance(stmt.test, ast.Name) and isinstance(first, ast.Assign) and len(first.targets) == 1 and isinstance(first.targets[0], ast.Name):
+            c = first.value
+            name = stmt.test.id
+            if (isinstance(c, ast.Call) and isinstance(c.func, ast.Attribute) and c.func.attr in {"pop", "popleft"} and isinstance(c.func.value, ast.Name) and c.func.value.id == name
+                    and not c.keywords and (not c.args or (len(c.args) == 1 and isinstance(c.args[0], ast.Constant) and c.args[0].value in {0, -1}))
+                    and uses(name, body) == 1 and isinstance(st.env.get(name), ast.AST)):
+                it = ast.Call(func=ast.Name(id="reversed", ctx=ast.Load()), args=[ast.Name(id=name, ctx=ast.Load())], keywords=[])
+                loop = ast.For(target=first.targets[0], iter=it if not c.args or c.args[0].value == -1 else it.args[0], body=body[1:] or [ast.Pass()], orelse=list(stmt.orelse))
+                loop._drained = name  # type: ignore[attr-defined]
+        t = stmt.test
+        if (loop is None and isinstance(t, ast.Compare) and len(t.ops) == 1 and isinstance(t.ops[0], ast.Lt) and isinstance(t.left, ast.Name)
+                and isinstance(t.comparators[0], ast.Call) and isinstance(t.comparators[0].func, ast.Name) and t.comparators[0].func.id == "len"
+                and len(t.comparators[0].args) == 1 and isinstance(t.comparators[0].args[0], ast.Name)):
+            i, xs = t.left.id, t.comparators[0].args[0].id
+            last = body[-1]
+            start = st.env.get(i)
+            if (isinstance(first, ast.Assign) and len(first.targets) == 1 and isinstance(first.targets[0], ast.Name) and isinstance(first.value, ast.Subscript)
+                    and isinstance(first.value.value, ast.Name) and first.value.value.id == xs and isinstance(first.value.slice, ast.Name) and first.value.slice.id == i
+                    and isinstance(last, ast.AugAssign) and isinstance(last.op, ast.Add) and isinstance(last.target, ast.Name) and last.target.id == i
+                    and isinstance(last.value, ast.Constant) and last.value.value == 1 and isinstance(start, ast.Constant) and start.value == 0
+                    and uses(i, body) == 2 and uses(xs, body) == 1 and len(body) >= 2
+                    and not any(isinstance(n, ast.Continue) for b in body for n in ast.walk(b))):
+                loop = ast.For(target=first.targets[0], iter=ast.Name(id=xs, ctx=ast.Load()), body=body[1:-1] or [ast.Pass()], orelse=list(stmt.orelse))
+                loop._drained = None  # type: ignore[attr-defined]
+        if loop is None:
+            return None
+        ast.copy_location(loop, stmt)
+        ast.fix_missing_locations(loop)
+        for attr in ("_module", "_parent"):
+            if hasattr(stmt, attr):
+                setattr(loop, attr, getattr(stmt, attr))
+        return loop
+
+    def _iter_alternatives(self, it: ast.AST, s: _State) -> list[tuple[_State, ast.AST]]:
+        """``for x in A or B`` iterates ``A`` if it is non-empty, else ``B``; ``for x in (A if c else B)``."""
+        if isinstance(it, ast.BoolOp) and isinstance(it.op, ast.Or) and len(it.values) == 2:
+            a, b = it.values
+            s1, s2 = s.fork(), s.fork()
+            s1.facts.append((a, True))
+            s2.facts.append((a, False))
+            return [(s1, a), (s2, b)]
+        if isinstance(it, ast.IfExp):
+            known = _truth(it.test)
+            out = []
+            for outcome, arm in ((True, it.body), (False, it.orelse)):
+                if known is not None and known != outcome:
+                    continue
+                b = s.fork()
+                b.facts.append((it.test, outcome))
+                out.append((b, arm))
+            return out
+        return [(s, it)]
 
     def _for(self, loop: ast.For, st: _State, fr: _Frame):
         out = []
@@ -532,36 +1219,78 @@ class SymExec:
                 appended.add(n.func.value.id)
             if isinstance(n, ast.AugAssign) and isinstance(n.target, ast.Name):
                 appended.add(n.target.id)
-        targets = {n.id for n in ast.walk(loop.target) if isinstance(n, ast.Name)}
-        for s in self._prepare([loop.iter], st, fr):
-            var, elem, src, ifs = self._element(self.ev(loop.iter, s, fr))
-            accs = {a for a in appended if _is_empty_list(s.env.get(a))}
-            for name in stored - targets:
-                if name not in accs:
-                    s.env[name] = self._fresh(name, loop, fr)  # loop-carried: value of an earlier iteration
-            if isinstance(loop.target, ast.Name):
-                s.env[loop.target.id] = elem
-            else:
-                for name in targets:
-                    s.env[name] = self._fresh(name, loop, fr)
-            outer = s.appends
-            s.appends = {a: [] for a in accs}
-            for b, status, val in self._block(loop.body, s, fr):
-                if status in {"return", "raise"}:
-                    out.append((b, status, val))
+        if fr.gen and any(isinstance(n, ast.Yield) for n in walk_function(loop, nested=False)):
+            appended.add("<yield>")
+        for n in walk_function(loop, nested=False):  # lists handed down to a helper that appends to its parameter
+            if isinstance(n, ast.Call) and any(isinstance(x, ast.Name) for x in [*n.args, *[k.value for k in n.keywords]]):
+                tgt = self._callee(n, fr)
+                if tgt is None:
                     continue
-                for a in accs:
-                    items = b.appends.get(a, [])
-                    if status != "break" and len(items) == 1:
-                        b.env[a] = self._seq(items[0], var, src, list(ifs))
+                for param, arg in self._arg_nodes(n, tgt).items():
+                    if isinstance(arg, ast.Name) and any(isinstance(c, ast.Call) and isinstance(c.func, ast.Attribute) and c.func.attr == "append" and isinstance(c.func.value, ast.Name)
+                                                         and c.func.value.id == param for c in walk_function(tgt.node, nested=False)):
+                        appended.add(arg.id)
+        targets = {n.id for n in ast.walk(loop.target) if isinstance(n, ast.Name)}
+        site = self._site(loop, fr)
+        for s0 in self._prepare([loop.iter], st, fr):
+            for s, it in self._iter_alternatives(self.ev(loop.iter, s0, fr), s0):
+                e = self._element(it, site, fr)
+                self.loop_src[site] = e.src
+                if e.empty:
+                    out += self._block(loop.orelse, s, fr) if loop.orelse else [(s, "next", None)]
+                    continue
+                s.facts += [(c, True) for c in e.ifs if not is_marker(c)]  # the body runs for the elements that pass the filters
+                accs = {a for a in appended if _is_empty_list(s.env.get(a))}
+                carried: dict[str, tuple[str, ast.AST]] = {}
+                for name in sorted(stored - targets):
+                    if name not in accs:
+                        old = s.env.get(name)
+                        sym = self._fresh(name, loop, fr)  # loop-carried: value of an earlier iteration
+                        s.env[name] = sym
+                        self.carried[sym.id] = site
+                        if old is not None:
+                            carried[name] = (sym.id, old)
+                self._assign(loop.target, e.elem, s, fr, loop)
+                outer = s.appends
+                s.appends = {a: [] for a in accs}
+                results = self._block(loop.body, s, fr)
+                live = [b for b, status, _ in results if status not in {"return", "raise"}]
+                prods = {}
+                for name, (symid, old) in carried.items():
+                    parts = [_split_carried(b.env.get(name), symid) for b in live]
+                    if parts and all(p is not None for p in parts) and any(parts):
+                        prods[name] = (symid, old)
+                for b, status, val in results:
+                    if status == "raise":
+                        out.append((b, status, val))
+                        continue
+                    if status == "return":
+                        if val is None or is_none(val):
+                            b.early.append((site, unparse(b.last_return) if b.last_return is not None else "return"))
+                        else:
+                            b.early.append((site, "<value>"))
+                        out.append((b, status, val))
+                        continue
+                    left = status == "break"
+                    for a in accs:
+                        items = b.appends.get(a, [])
+                        if not left and len(items) == 1:
+                            b.env[a] = self._seq(items[0], e.var, e.src, list(e.ifs), (*e.sites, site), e.reordered)
+                        else:
+                            why = _marker(f"{len(items)} elements on a path{' that leaves the loop' if left else ''}")
+                            b.env[a] = self._seq(items[0] if items else ast.Constant(None), e.var, e.src, [*e.ifs, why], (*e.sites, site), e.reordered)
+                    for name, (symid, old) in prods.items():
+                        rest = _split_carried(b.env.get(name), symid) or []
+                        ifs = [*e.ifs, *([_marker("a path that leaves the loop")] if left else [])]
+                        elt = _mult([f for f, _ in rest]) if rest else ast.Constant(1)
+                        b.env[name] = _make_product(f"{site}/{name}", site, old, self._seq(elt, e.var, e.src, ifs, (*e.sites, site)), rest)
+                    b.appends = {k: list(v) for k, v in outer.items()}
+                    if left:
+                        b.early.append((site, "break"))
+                    if not left and loop.orelse:
+                        out += self._block(loop.orelse, b, fr)
                     else:
-                        why = ast.Name(id=f"<{len(items)} elements on a path{' that leaves the loop' if status == 'break' else ''}>", ctx=ast.Load())
-                        b.env[a] = self._seq(items[0] if items else ast.Constant(None), var, src, [*ifs, why])
-                b.appends = {k: list(v) for k, v in outer.items()}
-                if status != "break" and loop.orelse:
-                    out += self._block(loop.orelse, b, fr)
-                else:
-                    out.append((b, "next", None))
+                        out.append((b, "next", None))
         return out
 
 
@@ -589,6 +1318,16 @@ def is_mapping(e: ast.AST) -> bool:
     return isinstance(e, ast.Attribute) and e.attr.split("__")[-1] == MAPPING
 
 
+def is_mapping_keys(e: ast.AST) -> bool:
+    """The mapping as the right operand of `in`: the mapping itself or `mapping.keys()`."""
+    if is_mapping(e):
+        return True
+    if isinstance(e, ast.Call) and isinstance(e.func, ast.Attribute) and e.func.attr == "keys" and not e.args and not e.keywords:
+        return is_mapping(e.func.value)
+    return (isinstance(e, ast.Call) and isinstance(e.func, ast.Name) and e.func.id in {"set", "frozenset", "list", "tuple", "dict"} and len(e.args) == 1 and not e.keywords
+            and is_mapping_keys(e.args[0]))
+
+
 def is_raw(e: ast.AST) -> bool:
     return isinstance(e, ast.Call) and (e.func.attr if isinstance(e.func, ast.Attribute) else getattr(e.func, "id", None)) == RAW_SUFFIX
 
@@ -601,7 +1340,15 @@ def raw_node(e: ast.Call) -> ast.AST | None:
 
 
 def mentions_mapping(e: ast.AST) -> bool:
-    return any(is_mapping(n) for n in ast.walk(e))
+    """(not looking into sequence / product values: the conditions they were built under are judged where they are used)"""
+    todo = [e]
+    while todo:
+        n = todo.pop()
+        if is_mapping(n):
+            return True
+        if not (_is_seq(n) or is_product(n)):
+            todo.extend(ast.iter_child_nodes(n))
+    return False
 
 
 def _asserts(at, left_pred, op_pos, op_neg, right_pred) -> bool | None:
@@ -618,7 +1365,16 @@ def _asserts(at, left_pred, op_pos, op_neg, right_pred) -> bool | None:
 def registered(raw: ast.AST, ats) -> bool | None:
     """Is `raw in <mapping>` known on the path?"""
     for at in ats:
-        r = _asserts(at, lambda x: _same(x, raw), ast.In, ast.NotIn, is_mapping)
+        r = _asserts(at, lambda x: _same(x, raw), ast.In, ast.NotIn, is_mapping_keys)
+        if r is not None:
+            return r
+    return None
+
+
+def registered_any(ats) -> bool | None:
+    """Is `<some raw suffix> in <mapping>` known on the path?"""
+    for at in ats:
+        r = _asserts(at, is_raw, ast.In, ast.NotIn, is_mapping_keys)
         if r is not None:
             return r
     return None
@@ -626,18 +1382,23 @@ def registered(raw: ast.AST, ats) -> bool | None:
 
 def mapped_value(m: ast.AST, raw: ast.AST, ats) -> bool:
     """Is ``m`` the coefficient suffix the mapping gives for ``raw`` - ``raw`` itself if it is not registered?
-    `mapping[raw]` (raises for an unregistered suffix), `mapping.get(raw, raw)`, and `mapping.get(raw)` on a
-    path where the result is known not to be None / the suffix is known to be registered."""
+    `mapping[raw]` (raises for an unregistered suffix), `mapping.get(raw, raw)`, and `mapping.get(raw[, D])` on a
+    path where the result is known not to be the default ``D`` / the suffix is known to be registered."""
     if isinstance(m, ast.Subscript) and is_mapping(m.value) and _same(m.slice, raw):
         return True
     if isinstance(m, ast.Call) and isinstance(m.func, ast.Attribute) and m.func.attr == "get" and is_mapping(m.func.value) and not m.keywords and m.args and _same(m.args[0], raw):
         if len(m.args) == 2 and _same(m.args[1], raw):
             return True
-        if len(m.args) == 1 or (isinstance(m.args[1], ast.Constant) and m.args[1].value is None):
+        if len(m.args) in (1, 2):
             if registered(raw, ats):
                 return True
-            is_none = lambda x: isinstance(x, ast.Constant) and x.value is None  # noqa: E731
-            return any(_asserts(at, lambda x: _same(x, m), ast.IsNot, ast.Is, is_none) for at in ats)
+            default = m.args[1] if len(m.args) == 2 else ast.Constant(None)
+            is_default = lambda x: _same(x, default)  # noqa: E731
+            same_m = lambda x: _same(x, m)  # noqa: E731
+            if any(_asserts(at, same_m, ast.IsNot, ast.Is, is_default) or _asserts(at, is_default, ast.IsNot, ast.Is, same_m) for at in ats):
+                return True
+            if isinstance(default, ast.Constant):
+                return any(_asserts(at, same_m, ast.NotEq, ast.Eq, is_default) or _asserts(at, is_default, ast.NotEq, ast.Eq, same_m) for at in ats)
     return False
 
 
@@ -652,157 +1413,480 @@ def flip_atom(at, ats) -> tuple[bool, ast.Call] | None:
     return None
 
 
-def flip_status(facts, what: str) -> tuple[bool, list[ast.Call]]:
-    """Is the node of the iteration known to be mapped to its partner (`mapped suffix != raw suffix`) on a
-    path with these facts?  Returns (flipped, raw suffixes compared).  A condition on the partner mapping
-    that is not understood cannot be judged: AnalysisError."""
+def flip_facts(facts) -> tuple[list[ast.Call], list[str]]:
+    """(raw suffixes of the nodes that are known to be mapped to their partner - `mapped suffix != raw suffix`
+    holds - on a path with these facts, conditions on the partner mapping that are not understood)."""
     ats = atoms(facts)
-    verdicts, raws, unknown = [], [], []
+    flipped, unknown = [], []
     for at in ats:
         f = flip_atom(at, ats)
         if f is not None:
-            verdicts.append(f[0])
-            raws.append(f[1])
+            if f[0]:
+                flipped.append(f[1])
             continue
         test = at[0]
         if not mentions_mapping(test):
             continue
-        if isinstance(test, ast.Compare) and len(test.ops) == 1 and isinstance(test.ops[0], (ast.In, ast.NotIn)) and is_mapping(test.comparators[0]):
+        if isinstance(test, ast.Compare) and len(test.ops) == 1 and isinstance(test.ops[0], (ast.In, ast.NotIn)) and is_mapping_keys(test.comparators[0]):
             continue  # registered / not registered: says nothing about the partner
         if isinstance(test, ast.Compare) and len(test.ops) == 1 and isinstance(test.ops[0], (ast.Is, ast.IsNot)):
             continue
+        if _is_seq(test) or is_product(test):
+            continue  # (the truth value of a collection / a product built under such conditions)
         unknown.append(unparse(test))
-    if any(verdicts):
-        return True, raws
-    if unknown:
-        raise AnalysisError(f"{what}: cannot decide whether the condition `{unknown[0]}` on the partner mapping is the flip test `mapped suffix != raw suffix`")
-    return False, raws
+    return flipped, unknown
 
 
 class PathFacts:
     """The paths of one function (SymExec) queried by statement."""
 
-    def __init__(self, tree: Tree, fn: FuncInfo) -> None:
+    def __init__(self, tree: Tree, fn: FuncInfo, atoms: frozenset | set = frozenset()) -> None:
         self.tree, self.fn = tree, fn
-        self.sym = SymExec(tree, fn)
+        self.sym = SymExec(tree, fn, atoms=atoms)
         self.finals = self.sym.run()
         if not self.finals:
             raise AnalysisError(f"{fn.qual}: no path returns")
-        self.raws: list[ast.Call] = []
 
     def at(self, node: ast.AST) -> list[tuple[list, ast.AST | None]]:
         """(facts, symbolic right-hand side) for every path on which the statement of ``node`` runs."""
         stmt = node if isinstance(node, ast.stmt) else next(a for a in ancestors(node) if isinstance(a, ast.stmt))
         out, seen = [], set()
         for st, _ in self.finals:
-            hit = st.reached.get(id(stmt))
-            if hit is None:
-                continue
-            facts = st.facts[: hit[0]]
-            key = (tuple((ast.dump(t), o) for t, o in facts), ast.dump(hit[1]) if hit[1] is not None else None)
-            if key not in seen:
-                seen.add(key)
-                out.append((facts, hit[1]))
+            for sid, n, value in st.reached:
+                if sid != id(stmt):
+                    continue
+                facts = st.facts[:n]
+                key = (tuple((ast.dump(t), o) for t, o in facts), ast.dump(value) if value is not None else None)
+                if key not in seen:
+                    seen.add(key)
+                    out.append((facts, value))
         if not out:
             raise AnalysisError(f"{self.fn.qual}: `{unparse(stmt)}` is on no path of the function")
         return out
 
-    def flipped_on_every_path(self, node: ast.AST) -> bool:
-        ok = True
-        for facts, _ in self.at(node):
-            flipped, raws = flip_status(facts, self.fn.qual)
-            self.raws += raws
-            ok = ok and flipped
-        return ok
+
+# ---------------------------------------------------------------------------------- R-DEPENDS
+NUMERIC_WRAPPERS = {"sympy.Rational", "sympy.Integer", "sympy.Float", "sympy.S", "sympy.sympify", "sympy.nsimplify", "sympy.Number", "float", "int",
+                    "fractions.Fraction", "sympy.core.numbers.Rational", "sympy.core.numbers.Integer"}
 
 
-def check_selection_product(ctx: Check, tree: Tree, fn: FuncInfo, param: str) -> None:
-    """The helper multiplies interaction.parity_prefactor over EXACTLY the nodes in ``param``."""
-    rd = RD(fn.node)
-    loops = [n for n in walk_function(fn.node) if isinstance(n, ast.For)]
-    key = f"{fn.qual}::product-over-selection"
-    if len(loops) != 1:
-        raise AnalysisError(f"{fn.qual}: expected one loop over the selected nodes, found {len(loops)}")
-    loop = loops[0]
-    it = loop.iter
-    exact = isinstance(it, ast.Name) and it.id == param and all(d.kind == "param" for d in rd.reaching(it))
-    problems = []
-    if not exact:
-        if isinstance(it, ast.BoolOp) or isinstance(it, ast.IfExp):
-            problems.append(f"iterates `{unparse(it)}`: an EMPTY selection (a chain without flipped node) falls back to another node set")
-        else:
-            problems.append(f"iterates `{unparse(it)}`, not exactly the selection `{param}`")
-    var = unparse(loop.target)
-    upd = [n for n in walk_function(loop) if isinstance(n, ast.AugAssign) and isinstance(n.op, ast.Mult)]
-    if not upd:
-        problems.append("no product update in the loop")
-    for u in upd:
-        txt = unparse(u.value) + "".join(unparse(d.value) for d in rd.closure(rd.uses(u.value)) if d.value is not None)
-        loop_defs = {d for d in rd.defs if d.kind == "for" and d.node is loop}
-        if "parity_prefactor" not in txt or not (rd.closure(rd.uses(u.value)) & loop_defs):
-            problems.append(f"`{unparse(u)}` is not the parity factor of the node `{var}`")
-    ctx.verdict(not problems, "R-DEPENDS", key, tree.loc(loop), f"{fn.qual}: product of interaction.parity_prefactor over exactly the nodes in `{param}`", problems or None)
+def node_source(src: ast.AST | None) -> bool:
+    """Does the iterable range over the nodes of the chain?  `<transition>.topology.nodes`, or the keys of
+    `<transition>.interactions` (qrules defines an interaction for exactly the nodes of the topology)."""
+    if src is None:
+        return False
+    text = unparse(src)
+    return text.endswith("topology.nodes") or text.endswith(".interactions")
 
 
-def check_none_means_one(ctx: Check, tree: Tree, fn: FuncInfo, loop: ast.For, paths: "PathFacts") -> None:
+def check_none_means_one(ctx: Check, tree: Tree, fn: FuncInfo, paths: PathFacts, handed_sites: set[str]) -> None:
     """R-DEPENDS: the product is handed out whenever it is not 1 - `None` (no prefactor) only stands for +1.
     Every path that answers None after the loop knows `X == 1` for the value X that the other paths hand out;
-    a path that answers None although it knows `X != 1` loses the sign.  A None under other conditions is not decided."""
-    is_none = lambda v: isinstance(v, ast.Constant) and v.value is None  # noqa: E731
-    is_one = lambda v: isinstance(v, ast.Constant) and not isinstance(v.value, bool) and v.value in {1, 1.0}  # noqa: E731
+    a path that answers None although it knows `X != 1` loses the sign; a path that knows that the sequence the product
+    ranges over is empty (`if not flipped_nodes: return None`) answers None for the initial value 1.  A None under other
+    conditions is not decided."""
     anything = lambda v: True  # noqa: E731
     handed_out = [ast.dump(v) for _, v in paths.finals if not is_none(v)]
     if not handed_out:
         return
-    returns = [n for n in walk_function(fn.node, nested=False) if isinstance(n, ast.Return)]
-    lost, undecided, n_none = [], [], 0
+
+    def is_the_product(x: ast.AST) -> bool:
+        if is_one(x):
+            return True
+        if any(product_site(p) in handed_sites for p in products_in(x)):
+            return True
+        return any(ast.dump(x) in h for h in handed_out)
+
+    # a sequence the handed-out product ranges over (through maps / filters): if it is empty the product is its initial value
+    handed_seq_sites = {s for _, v in paths.finals if not is_none(v) for p in products_in(v) for s in getattr(p.args[1], "_sites", ())}
+
+    def known_empty(at) -> ast.AST | None:
+        """The sequence the atom knows to be empty (`not xs`, `len(xs) == 0`, ...)."""
+        test, outcome = at
+        if _is_seq(test):
+            return test if not outcome else None
+        if isinstance(test, ast.Compare) and len(test.ops) == 1:
+            a, b, op = test.left, test.comparators[0], test.ops[0]
+            if (isinstance(a, ast.Call) and isinstance(a.func, ast.Name) and a.func.id == "len" and len(a.args) == 1 and _is_seq(a.args[0])
+                    and isinstance(b, ast.Constant) and isinstance(b.value, int) and not isinstance(b.value, bool)):
+                empty_if = {(ast.Eq, 0): True, (ast.NotEq, 0): False, (ast.Gt, 0): False, (ast.Lt, 1): True, (ast.GtE, 1): False, (ast.LtE, 0): True}.get((type(op), b.value))
+                if empty_if is not None and empty_if == outcome:
+                    return a.args[0]
+        return None
+
+    lost, undecided, where = [], [], None
     for st, v in paths.finals:
-        if not is_none(v) or any(id(r) in st.reached and any(a is loop for a in ancestors(r)) for r in returns):
-            continue  # (a None from inside the loop is reported as leaving the loop early)
-        n_none += 1
+        if not is_none(v) or st.early:
+            continue  # (a None from inside a loop is reported as leaving the loop early)
         known = None
         for at in atoms(st.facts):
+            empty = known_empty(at)
+            if empty is not None and set(getattr(empty, "_sites", ())) & handed_seq_sites:
+                known = True if known is None else known  # no node contributes: the product is its initial value 1
             for holds, x in ((_asserts(at, anything, ast.Eq, ast.NotEq, is_one), at[0].left if isinstance(at[0], ast.Compare) else None),
                              (_asserts(at, is_one, ast.Eq, ast.NotEq, anything), at[0].comparators[0] if isinstance(at[0], ast.Compare) else None)):
-                if holds is not None and x is not None and (is_one(x) or any(ast.dump(x) in h for h in handed_out)):
+                if holds is not None and x is not None and is_the_product(x):
                     known = holds if known is None else (known and holds)
-        path = " and ".join(f"{'' if o else 'not '}({unparse(t)})" for t, o in st.facts[-2:]) or "unconditionally"
+        path = " and ".join(f"{'' if o else 'not '}({unparse(t)})" for t, o in st.facts[-2:])[:300] or "unconditionally"
         if known is False:
             lost.append(path)
         elif known is None:
             undecided.append(path)
-    where = next((g for r in returns if not any(a is loop for a in ancestors(r)) for g in ancestors(r) if isinstance(g, ast.If)), fn.node)
+        if where is None and st.top_return is not None:
+            where = next((g for g in ancestors(st.top_return) if isinstance(g, ast.If)), None)
     key = f"{fn.qual}::returned-iff-not-one"
     if lost or not undecided:
-        ctx.verdict(not lost, "R-DEPENDS", key, tree.loc(where),
+        ctx.verdict(not lost, "R-DEPENDS", key, tree.loc(where if where is not None else fn.node),
                     "the accumulated prefactor is handed out whenever it differs from 1 (None stands for +1 only): every path that answers None knows `prefactor == 1`",
                     None if not lost else {"a product of -1 is answered with None: the chain loses its parity sign. None is answered on the path(s)": sorted(set(lost))[:3]})
     if undecided:
         raise AnalysisError(f"{fn.qual}: None (no prefactor) is answered on a path that does not compare the product with 1 ({sorted(set(undecided))[0][:200]}): cannot decide whether the product is 1 there")
 
 
+def check_prefactor(ctx: Check, tree: Tree, fn: FuncInfo) -> None:
+    """R-DEPENDS on the VALUE of the parity-prefactor function (every path, one generic node per loop): the value
+    handed out is a product over the nodes of the chain; every factor a node contributes (i) is contributed only
+    on paths that know `mapped suffix != raw suffix` for the raw suffix of THAT node, and (ii) is the
+    parity_prefactor of the interaction of THAT node; the product starts from 1, no loop over the nodes is left
+    early, and None is answered only where the product is known to be 1."""
+    paths = PathFacts(tree, fn)
+    sym = paths.sym
+    ctx.stats["paths"] = len(paths.finals)
+    handed = [(st, v) for st, v in paths.finals if not is_none(v)]
+    if not handed:
+        raise AnalysisError(f"{fn.qual}: no non-None return")
+
+    verdicts: dict[str, dict] = {}
+    undecided: list[str] = []
+
+    def note(key: str, where, what: str, problem: str | None = None) -> None:
+        rec = verdicts.setdefault(key, {"where": tree.loc(where) if where is not None else tree.loc(fn.node), "what": what, "problems": []})
+        if problem and problem not in rec["problems"]:
+            rec["problems"].append(problem)
+
+    def origin_key(origin) -> tuple[str, str]:
+        if isinstance(origin, ast.stmt):
+            return f"{fn.qual}::update {unparse(origin)}", f"`{unparse(origin)}`"
+        if isinstance(origin, ast.Call):
+            return f"{fn.qual}::product {unparse(origin.func)}", f"the product `{unparse(origin.func)}(...)`"
+        return f"{fn.qual}::product", "the product"
+
+    def numeric_core(v: ast.AST) -> ast.AST:
+        while True:
+            if isinstance(v, ast.Call) and len(v.args) == 1 and not v.keywords and sym._fname(v.func) in NUMERIC_WRAPPERS:
+                v = v.args[0]
+            elif isinstance(v, ast.UnaryOp) and isinstance(v.op, ast.UAdd):
+                v = v.operand
+            else:
+                return v
+
+    def leaves(v: ast.AST) -> list[ast.AST]:
+        """The multiplicative leaves of a value (through numeric conversions; `-x` is `-1 * x`)."""
+        v = numeric_core(v)
+        if isinstance(v, ast.UnaryOp) and isinstance(v.op, ast.USub):
+            return [ast.Constant(-1), *leaves(v.operand)]
+        if isinstance(v, ast.BinOp) and isinstance(v.op, ast.Mult):
+            return leaves(v.left) + leaves(v.right)
+        return [v]
+
+    def is_number(f: ast.AST) -> bool:
+        return isinstance(f, ast.Constant) and isinstance(f.value, (int, float)) and not isinstance(f.value, bool)
+
+    def mentions(e: ast.AST, eid: str) -> bool:
+        return any(isinstance(n, ast.Name) and n.id == eid for n in ast.walk(e))
+
+    def interaction_node(e: ast.AST, prefix: bool = False) -> ast.AST | None:
+        """N if ``e`` is `<...>.interactions[N]` (``prefix``: or an attribute chain on it)."""
+        while prefix and isinstance(e, ast.Attribute):
+            e = e.value
+        if isinstance(e, ast.Subscript) and isinstance(e.value, ast.Attribute) and e.value.attr == "interactions":
+            return e.slice
+        return None
+
+    def irrelevant(t: ast.AST) -> bool:
+        """Conditions on a node that are known not to be the flip test."""
+        if isinstance(t, ast.Compare) and len(t.ops) == 1:
+            a, b, op = t.left, t.comparators[0], t.ops[0]
+            if isinstance(op, (ast.Is, ast.IsNot)) and (is_none(a) or is_none(b)):
+                return True  # `eta is None`, `mapping.get(raw) is None`
+            if isinstance(op, (ast.In, ast.NotIn)) and is_mapping_keys(b):
+                return True  # registered / not registered
+            if isinstance(op, (ast.Eq, ast.NotEq)) and (is_number(a) or is_number(b) or products_in(t)):
+                return True  # the product compared with 1
+            if flip_atom((t, True), [(t, True)]) is not None or (isinstance(op, (ast.Eq, ast.NotEq)) and (is_raw(a) or is_raw(b)) and mentions_mapping(t)):
+                return True  # the flip test itself (it did not hold)
+        if _is_seq(t) or is_product(t):
+            return True
+        if interaction_node(t) is not None:
+            return True  # `if interaction:`
+        return False
+
+    def ret_key(st: _State, v: ast.AST) -> tuple[str, ast.AST]:
+        ret = st.top_return
+        text = unparse(ret.value) if ret is not None and ret.value is not None else unparse(v)[:80]
+        return f"{fn.qual}::return {text}", ret if ret is not None else fn.node
+
+    raws_ok: list[ast.Call] = []
+    raw_problems: list[str] = []
+    loops_of_interest: set[str] = set()
+    handed_sites: set[str] = set()
+    n_contrib = 0
+
+    def judge(p: ast.Call, st: _State) -> None:
+        """One product value on one path."""
+        nonlocal n_contrib
+        init, seq = p.args
+        g = seq.generators[0]
+        markers = [c.id for c in g.ifs if is_marker(c)]
+        conds = [c for c in g.ifs if not is_marker(c)]
+        # ---- it starts from 1 (or from another product, which is judged on its own)
+        for f in leaves(init):
+            if is_one(f) or is_product(f):
+                continue
+            if is_number(f):
+                note(f"{fn.qual}::initial-value", None, f"{fn.qual}: the product over the flipped nodes starts from 1", f"starts from the constant {f.value!r}: every chain gets that factor, flipped or not")
+            else:
+                undecided.append(f"the product starts from `{unparse(f)[:80]}`, which is neither 1 nor a product over the nodes")
+        if any(m.startswith("<0 elements: the iterable is empty") for m in markers):
+            return
+        if not node_source(g.iter):
+            undecided.append(f"a product over `{unparse(g.iter)[:80]}` - cannot tell whether that ranges over the nodes of the chain")
+            return
+        loops_of_interest.update({p._loop, *getattr(seq, "_sites", ())})
+        if any("leaves the loop" in m for m in markers):
+            note(f"{fn.qual}::loop-left-early::break", None, f"{fn.qual}: the loop over the nodes of the chain runs over ALL nodes",
+                 "a `break` leaves the loop before all nodes were looked at: the parity factors of flipped nodes that come later in the chain are dropped (a guard clause of a per-node test is `continue`)")
+            return
+        if any(m.startswith("<0 elements") for m in markers):
+            return  # nothing is contributed for this node on this path
+        if markers:
+            undecided.append(f"a node contributes `{markers[0]}` to the product")
+            return
+        if not isinstance(g.target, ast.Name):
+            undecided.append(f"the element `{unparse(g.target)}` of the product is not a single node")
+            return
+        eid = g.target.id
+        facts = [*st.facts, *((c, True) for c in conds)]
+        n_reads = sum(1 for factor, _ in p._factors for leaf in leaves(factor) if isinstance(leaf, ast.Attribute) and leaf.attr == "parity_prefactor")
+        if n_reads > 1:
+            key2, text2 = origin_key(p._factors[-1][1])
+            note(key2, None, f"{fn.qual}: {text2} multiplies the parity factor of exactly the flipped node", f"a node contributes its parity factor {n_reads} times on one path: eta^2 = 1 loses the sign")
+        for factor, origin in p._factors:
+            if is_one(numeric_core(factor)):
+                continue
+            n_contrib += 1
+            key, text = origin_key(origin)
+            origin_node = origin if isinstance(origin, ast.AST) and hasattr(origin, "_module") else None
+            note(key, origin_node, f"{fn.qual}: {text} multiplies the parity factor of exactly the flipped node")
+            # (i) guarded by the flip test of this node
+            flipped, unknown = flip_facts(facts)
+            mine = [r for r in flipped if isinstance(raw_node(r), ast.Name) and raw_node(r).id == eid]
+            others = [r for r in flipped if r not in mine]
+            if mine:
+                raws_ok.extend(mine)
+            elif others and isinstance(raw_node(others[0]), ast.Name) and raw_node(others[0]).id in sym.elements:
+                note(key, origin_node, "", f"applied to nodes that were NOT mapped to a partner (the flip test on the path is about the element `{raw_node(others[0]).id}` of another loop)")
+            elif others:
+                other = raw_node(others[0])
+                if other is None or isinstance(other, ast.Constant):
+                    raw_problems.append(f"the flip test looks up `{unparse(others[0])[:100]}`, the factor is contributed by the node `{eid}`")
+                else:
+                    undecided.append(f"the flip test looks up the suffix of `{unparse(other)[:80]}` - cannot tell whether that is the node `{eid}` whose factor is multiplied")
+            elif unknown:
+                undecided.append(f"cannot decide whether the condition `{unknown[0][:120]}` on the partner mapping is the flip test `mapped suffix != raw suffix`")
+            else:
+                ats = atoms(facts)
+                hidden = [c for t, _ in ats for c in sym.opaque_calls(t)]
+                strange = [unparse(t)[:100] for t, _ in ats if mentions(t, eid) and not irrelevant(t)]
+                if hidden or st.imprecise:
+                    undecided.append(f"{text} is reached under a condition that was not followed (`{(hidden or st.imprecise)[0]}`): cannot decide whether it is the flip test")
+                elif strange:
+                    undecided.append(f"{text} is reached under the condition `{strange[0]}` on the node: cannot decide whether that stands for the flip test `mapped suffix != raw suffix`")
+                else:
+                    note(key, origin_node, "", "applied to nodes that were NOT mapped to a partner (not under `mapped != raw`)")
+            # (ii) the parity factor of this node: `<...>.interactions[<this node>].parity_prefactor`
+            reads = [n for n in ast.walk(factor) if isinstance(n, ast.Attribute) and n.attr == "parity_prefactor"]
+            nodes_read = [interaction_node(n.value) for n in reads]
+            if sym.opaque_calls(factor):
+                undecided.append(f"the factor of {text} comes out of `{sym.opaque_calls(factor)[0]}(...)`, which the path analysis could not follow")
+            elif all(is_number(f) for f in leaves(factor)):
+                note(key, origin_node, "", f"the factor is the constant `{unparse(factor)[:40]}`, not interaction.parity_prefactor")
+            elif not reads:
+                if interaction_node(factor, prefix=True) is not None:
+                    note(key, origin_node, "", f"the factor `{unparse(factor)[:80]}` is not interaction.parity_prefactor")
+                else:
+                    undecided.append(f"the factor `{unparse(factor)[:80]}` of {text} is not read as the parity_prefactor of an interaction of the transition")
+            elif any(isinstance(n, ast.Name) and n.id == eid for n in nodes_read if n is not None):
+                # exactly the parity factor: no further constant, no second factor of the node
+                for leaf in leaves(factor):
+                    if is_one(leaf) or (isinstance(leaf, ast.Attribute) and leaf.attr == "parity_prefactor"):
+                        continue
+                    if is_number(leaf):
+                        note(key, origin_node, "", f"the factor `{unparse(factor)[:80]}` carries the constant {leaf.value!r} next to the parity factor of the node")
+                    else:
+                        undecided.append(f"the factor `{unparse(factor)[:80]}` of {text} is not read as the plain parity_prefactor of the node (`{unparse(leaf)[:60]}`)")
+            elif any(n is not None and (isinstance(n, ast.Constant) or (isinstance(n, ast.Name) and n.id in sym.elements)) for n in nodes_read):
+                note(key, origin_node, "", f"the factor `{unparse(factor)[:80]}` does not depend on the node of the iteration")
+            elif mentions(factor, eid):
+                pass  # (the interaction is reached from the node in another way, e.g. a decay object built for it)
+            else:
+                undecided.append(f"cannot tell which node the factor `{unparse(factor)[:80]}` of {text} belongs to")
+
+    for st, v in handed:
+        key, where = ret_key(st, v)
+        inner = [n.id for n in ast.walk(v) if isinstance(n, ast.Name) and n.id in sym.carried]
+        if inner:
+            # a value handed out from inside a loop never saw the remaining elements: whatever it is, it is
+            # not the product over ALL flipped nodes of the chain (and without the flip test not even of this one)
+            site = sym.carried[inner[0]]
+            if (site, "<value>") not in st.early:
+                undecided.append(f"the loop-carried value `{inner[0].split('@')[0]}` in `{unparse(v)[:80]}` is not read as a product over the elements of its loop")
+                continue
+            if not node_source(sym.loop_src.get(site)):
+                undecided.append(f"`{unparse(v)[:80]}` is handed out from inside a loop over `{unparse(sym.loop_src.get(site)) if sym.loop_src.get(site) is not None else '?'}`")
+                continue
+            flipped, _ = flip_facts(st.facts)
+            ctx.verdict(False, "R-DEPENDS", key + "::guard", tree.loc(where), f"{fn.qual}: the value handed out is the product over all flipped nodes",
+                        "returned before the remaining nodes of the chain were looked at: the parity factors of flipped nodes that come later are dropped" if flipped
+                        else "returned from inside the node loop for a node that was not mapped to a partner")
+            continue
+        prods = products_in(v)
+        handed_sites.update(product_site(p) for p in prods)
+        if not prods:
+            core = numeric_core(v)
+            if is_one(core):
+                continue
+            hidden = sym.opaque_calls(v)
+            if is_number(core):
+                ctx.violation("R-DEPENDS", key, tree.loc(where),
+                              f"{fn.qual}: the constant `{unparse(v)[:120]}` is handed out without looking at the individual nodes of the chain (no product over transition.topology.nodes)",
+                              "a value that does not depend on the nodes cannot tell which node was flipped: for two parity-constrained nodes of unlike eta of which one is flipped the chain gets the wrong sign")
+            else:
+                undecided.append(f"`{unparse(v)[:100]}` is handed out: cannot read it as a product over the nodes" + (f" (`{hidden[0]}(...)` was not followed)" if hidden else ""))
+            continue
+        # other factors next to the product(s)?
+        for f in leaves(v):
+            if is_product(f) or is_one(f):
+                continue
+            if is_number(f):
+                ctx.violation("R-DEPENDS", key + "::constant-factor", tree.loc(where), f"{fn.qual}: `{unparse(v)[:100]}` carries the constant factor {f.value!r} next to the product over the flipped nodes: every chain with a prefactor gets it, whatever was flipped")
+            elif products_in(f):
+                undecided.append(f"the product over the nodes is handed out inside `{unparse(f)[:80]}`: cannot read that as the product itself")
+            else:
+                undecided.append(f"`{unparse(f)[:80]}` is multiplied to the product over the nodes: not a parity factor of a flipped node")
+        contributing = [p for p in prods if any(not is_one(numeric_core(f)) for f, _ in p._factors)]
+        if len(contributing) > 1:
+            undecided.append(f"`{unparse(v)[:60]}...` multiplies {len(contributing)} products over the nodes: cannot tell whether a node contributes its factor more than once")
+        for p in prods:
+            judge(p, st)
+
+    # ---- leaving a loop over the nodes early (`return None` inside it; `break` is seen in the product)
+    for st, v in paths.finals:
+        for site, how in st.early:
+            if how not in {"break", "<value>"} and is_none(v) and site in loops_of_interest:
+                note(f"{fn.qual}::loop-left-early::{how}", st.last_return, f"{fn.qual}: the loop over the nodes of the chain runs over ALL nodes",
+                     f"`{how}` leaves the loop over the nodes before all nodes were looked at: the parity factors of flipped nodes that come later in the chain are dropped (a guard clause of a per-node test is `continue`)")
+
+    for key, rec in verdicts.items():
+        ctx.verdict(not rec["problems"], "R-DEPENDS", key, rec["where"], rec["what"], rec["problems"] or None)
+    ctx.stats["contributions_judged"] = n_contrib
+    if raws_ok or raw_problems:
+        ctx.verdict(not raw_problems, "R-DEPENDS", f"{fn.qual}::raw-suffix-of-node", tree.loc(fn.node),
+                    "the raw suffix compared with its mapped suffix is generate_two_body_decay_suffix(transition, <node>) of the node whose factor is multiplied", sorted(set(raw_problems)) or None)
+    if undecided:
+        raise AnalysisError(f"{fn.qual}: " + "; ".join(sorted(set(undecided))[:3]))
+    if n_contrib == 0 and not any(i.verdict in {"violation", "known"} and i.rule == "R-DEPENDS" for i in ctx.instances):
+        raise AnalysisError(f"{fn.qual}: no factor is contributed to the value handed out on any path - the rule would pass vacuously")
+    check_none_means_one(ctx, tree, fn, paths, handed_sites)
+
+
+# ---------------------------------------------------------------------------------- R-PARTNER
+def _bind_signature(call: ast.Call, fn: FuncInfo) -> dict[str, ast.AST] | None:
+    """Arguments of a (symbolic) call by parameter name of ``fn`` (defaults filled in); None if not decidable."""
+    a = fn.node.args
+    if a.vararg or a.kwarg or any(isinstance(x, ast.Starred) for x in call.args) or any(k.arg is None for k in call.keywords):
+        return None
+    positional = [x.arg for x in [*a.posonlyargs, *a.args]]
+    if len(call.args) > len(positional):
+        return None
+    out = dict(zip(positional, call.args))
+    names = set(positional) | {x.arg for x in a.kwonlyargs}
+    for k in call.keywords:
+        if k.arg not in names or k.arg in out:
+            return None
+        out[k.arg] = k.value
+    defaults = dict(zip(reversed(positional), reversed(a.defaults)))
+    defaults.update({x.arg: d for x, d in zip(a.kwonlyargs, a.kw_defaults) if d is not None})
+    for p in names:
+        if p not in out:
+            if p not in defaults:
+                return None
+            out[p] = defaults[p]
+    return out
+
+
+def _const(v: ast.AST):
+    return v.value if isinstance(v, ast.Constant) else ...
+
+
 def check_daughter_order(ctx: Check, tree: Tree) -> None:
     """R-PARTNER: the order in which the two daughters appear in a coefficient name must not depend
     on their helicities - otherwise (+l, -l) and (-l, +l) of two identical daughters get the same
     name (one coefficient, relative factor +1 instead of eta).  get_sorted_states sorts by particle
-    name only; ties keep the order of the state ids (sorted() is stable)."""
+    name only; ties keep the order of the state ids (sorted() is stable).  The sort key is read as the
+    expression it computes for a state (lambda, operator.attrgetter, a helper function)."""
     fn = tree.func("ampform.helicity.decay::get_sorted_states")
-    calls = [c for c in walk_function(fn.node) if isinstance(c, ast.Call) and unparse(c.func) == "sorted"]
+    paths = PathFacts(tree, fn)
+    sym = paths.sym
+    sorts: list[tuple[ast.AST | None, bool]] = []  # (sort key function, understood)
+    seen = set()
+    for _, value in paths.finals:
+        c = value  # the sort that produces the value handed out (an inner `sorted(state_ids)` only fixes the order of ties)
+        while isinstance(c, ast.Call) and sym._fname(c.func) in SAME_ELEMENTS and len(c.args) == 1 and not c.keywords:
+            c = c.args[0]
+        if isinstance(c, ast.Call) and sym._fname(c.func) == "sorted" and ast.dump(c) not in seen:
+            seen.add(ast.dump(c))
+            if any(k.arg is None for k in c.keywords) or len(c.args) != 1:
+                raise AnalysisError(f"{fn.qual}: cannot read the arguments of `{unparse(c)[:100]}`")
+            sorts.append(next((k.value for k in c.keywords if k.arg == "key"), None))
+    if not sorts:
+        # an in-place sort of the list that is handed out
+        for st, _ in paths.finals:
+            for sid, _, value in st.reached:
+                if isinstance(value, ast.Call) and isinstance(value.func, ast.Attribute) and value.func.attr == "sort" and ast.dump(value) not in seen:
+                    seen.add(ast.dump(value))
+                    if value.args or any(k.arg is None for k in value.keywords):
+                        raise AnalysisError(f"{fn.qual}: cannot read the arguments of `{unparse(value)[:100]}`")
+                    sorts.append(next((k.value for k in value.keywords if k.arg == "key"), None))
+    if not sorts:
+        raise AnalysisError(f"{fn.qual}: no sorted(...) / .sort(...) found in the value handed out - cannot tell how the states are ordered")
     problems = []
-    if len(calls) != 1:
-        raise AnalysisError(f"{fn.qual}: expected one sorted(...) call")
-    key = next((k.value for k in calls[0].keywords if k.arg == "key"), None)
-    if key is None:
-        problems.append("no sort key: State objects are ordered by all their fields, including the spin projection")
-    else:
-        body = key.body if isinstance(key, ast.Lambda) else key
+    state = ast.Name(id="<state>", ctx=ast.Load())
+    for key in sorts:
+        if key is None or is_none(key):
+            problems.append("no sort key: State objects are ordered by all their fields, including the spin projection")
+            continue
+        body = sym._apply(key, [state], fn.node, _State(), sym.top)
+        if body is None or not any(isinstance(n, ast.Name) and n.id == "<state>" for n in ast.walk(body)) and not isinstance(key, ast.Lambda):
+            raise AnalysisError(f"{fn.qual}: cannot read the sort key `{unparse(key)[:100]}` as an expression of the state")
+        hidden = [unparse(c.func) for c in ast.walk(body) if isinstance(c, ast.Call) and any(isinstance(n, ast.Name) and n.id == "<state>" for a in c.args for n in ast.walk(a))
+                  and sym._fname(c.func) not in {"str", "tuple", "repr"} and not (isinstance(c.func, ast.Attribute) and c.func.attr in {"lower", "upper", "casefold", "strip"})]
         attrs = {n.attr for n in ast.walk(body) if isinstance(n, ast.Attribute)}
+        text = unparse(body).replace("<state>", "s")
         if attrs & {"spin_projection", "helicity"}:
-            problems.append(f"the sort key `{unparse(body)}` depends on the spin projection")
-        if "name" not in attrs and "latex" not in attrs:
-            problems.append(f"the sort key `{unparse(body)}` is not the particle name")
+            problems.append(f"the sort key `{text}` depends on the spin projection")
+        elif hidden or any(isinstance(n, ast.Name) and n.id == "<state>" and not isinstance(getattr(n, "_p", None), ast.Attribute) for n in _with_parents(body)):
+            raise AnalysisError(f"{fn.qual}: the sort key `{text}` uses the state in a way that is not followed ({(hidden or ['the whole state'])[0]}): cannot decide whether it depends on the helicity")
+        # (a key that reads other fields of the particle than its name orders the daughters differently, but not by helicity)
     ctx.verdict(not problems, "R-PARTNER", f"{fn.qual}::order-independent-of-helicity", tree.loc(fn.node),
-                "get_sorted_states orders the daughters by particle name only (never by helicity)", problems or None)
+                "get_sorted_states orders the daughters by a key that does not read their helicity (the particle name)", problems or None)
+
+
+def _with_parents(expr: ast.AST):
+    for parent in ast.walk(expr):
+        for child in ast.iter_child_nodes(parent):
+            child._p = parent  # type: ignore[attr-defined]
+    return list(ast.walk(expr))
 
 
 def check_partner_key_flags(ctx: Check, tree: Tree) -> None:
@@ -819,17 +1903,35 @@ def check_partner_key_flags(ctx: Check, tree: Tree) -> None:
     outside the premise of the property - and is exempt.)"""
     mod = "ampform.helicity.naming"
     couple = tree.func(f"{mod}::HelicityAmplitudeNameGenerator.__generate_amplitude_coefficient_couple")
-    own_calls = [c for c in walk_function(couple.node) if isinstance(c, ast.Call) and unparse(c.func).endswith("generate_two_body_decay_suffix")]
+    own_calls = [c for c in walk_function(couple.node) if isinstance(c, ast.Call) and unparse(c.func).endswith(RAW_SUFFIX)]
     if not own_calls:
         raise AnalysisError(f"{couple.qual}: the own suffix is no longer generate_two_body_decay_suffix(...) - rule shape unknown")
-    # every implementation (overrides included) on the own-suffix path
-    names = {"generate_two_body_decay_suffix", "_get_coefficient_components"}
-    path = sorted((q for q, f in tree.funcs.items() if q.startswith(mod + "::") and f.name in names and f.cls is not None), key=str)
+    # every implementation (overrides included) on the own-suffix path: the implementations of
+    # generate_two_body_decay_suffix and every method / function of the module they reach (by name for methods,
+    # so that overrides in subclasses are included)
+    start = sorted(q for q, f in tree.funcs.items() if q.startswith(mod + "::") and f.name == RAW_SUFFIX and f.cls is not None)
+    if not start:
+        raise AnalysisError(f"vanished anchor: no implementation of {RAW_SUFFIX} in {mod}")
+    path, todo = set(start), list(start)
+    while todo:
+        f = tree.funcs[todo.pop()]
+        for call, q in tree.calls_in(f):
+            names = set()
+            if q in tree.funcs and tree.funcs[q].module.name == mod:
+                names.add(q)
+                if tree.funcs[q].cls is not None:  # a method: every override of it
+                    names |= {g.qual for g in tree.funcs.values() if g.cls is not None and g.name == tree.funcs[q].name and g.module.name == mod}
+            elif isinstance(call.func, ast.Attribute) and isinstance(call.func.value, ast.Call) and unparse(call.func.value.func) == "super":
+                names |= {g.qual for g in tree.funcs.values() if g.cls is not None and g.name == call.func.attr and g.module.name == mod}
+            for n in names - path:
+                path.add(n)
+                todo.append(n)
+    # (properties of the generator that only return a flag are part of the path: the flag is found in them under its own name)
     if len(path) < 3:
         raise AnalysisError(f"only {len(path)} implementations on the own-suffix path (3 confirmed: generate_two_body_decay_suffix and two _get_coefficient_components)")
     exempt = {"insert_parent_helicities": "only adds the parent's helicity to the own name: chains stop sharing a coefficient, none shares one without the sign"}
     found: dict[str, list] = {}
-    for q in path:
+    for q in sorted(path):
         fn = tree.funcs[q]
         for n in walk_function(fn.node):
             if isinstance(n, ast.Attribute) and isinstance(n.value, ast.Name) and n.value.id == "self":
@@ -850,279 +1952,346 @@ def check_partner_key_flags(ctx: Check, tree: Tree) -> None:
                       {"read at": [tree.loc(n_) for _, n_ in sites][:3], "partner suffix": "always `parent -> child_{-l1} child_{-l2}` (helicities, plain arrow)"})
 
 
-def run(ctx: Check, tree: Tree) -> None:
-    ctx.decided += [
-        'R-PARTNER (display flags): the strings that decide coefficient sharing and the parity flip do not depend on display flags of the name generator',
-        "R-DEPENDS: every non-trivial value returned by the parity-prefactor function depends on the node loop variable, and every contribution inside the node loop is guarded by the per-node test `mapped suffix != raw suffix` and takes the parity factor of that node (decided on the paths of the function: guard clauses, nested ifs, extracted predicates / per-node helpers and `mapping.get(raw, raw)` read the same); the node loop is never left early; None is answered only where the product is known to be 1",
-        "R-TERM (shared with C02): the canonical expansion used by the equivalence clause is CG(L,0;S,d|J,d) * CG(s1,l1;s2,-l2|S,d) on every path",
-        "R-PARTNER: the partner suffix is built with make_parity_partner=True for both daughters and without the parent helicity; _state_to_str negates the helicity; the sequential suffix joins, for EVERY node, the suffix the partner mapping gives for the node's raw suffix (the raw suffix itself if unregistered) - loop or comprehension; the accessor of the mapping is not memoised while the mapping is re-bound",
-    ]
-    ctx.not_decided += ["equivalence with the canonical formalism for all LS coefficient values (numerical)", "which interactions qrules marks with a parity prefactor"]
-    ctx.assumptions += ["qrules InteractionProperties.parity_prefactor is eta = P P1 P2 (-1)^(J-s1-s2) of that node"]
-    fn = locate_prefactor_function(tree)
-    rd = RD(fn.node)
-    loops = node_loops(fn)
-    if not loops:
-        # no per-node decision at all: whatever is returned cannot know which nodes were flipped
-        n_ret = 0
-        for ret, _ in rd.returns:
-            if ret.value is None or (isinstance(ret.value, ast.Constant) and ret.value.value is None):
-                continue
-            n_ret += 1
-            ctx.violation("R-DEPENDS", f"{fn.qual}::return {unparse(ret.value)}", tree.loc(ret),
-                          f"{fn.qual}: `{unparse(ret)}` is computed without looking at the individual nodes of the chain (no loop over transition.topology.nodes)",
-                          "a value computed from the whole transition (the product over ALL nodes) cannot tell which node was flipped: for two parity-constrained nodes of unlike eta of which one is flipped the chain gets the wrong sign")
-        if not n_ret:
-            raise AnalysisError(f"{fn.qual}: no loop over the nodes and no non-None return")
-        ctx.section(check_partner_suffix, ctx, tree)
-        ctx.section(check_partner_key_flags, ctx, tree)
-        return
-    if len(loops) != 1:
-        raise AnalysisError(f"{fn.qual}: expected one loop over transition.topology.nodes, found {len(loops)}")
-    loop = loops[0]
-    loop_defs = {d for d in rd.defs if d.kind == "for" and d.node is loop}
-    loop_var = unparse(loop.target)
-    paths = PathFacts(tree, fn)  # every path of the function, one generic node per loop
-    ctx.stats["paths"] = len(paths.finals)
-
-    def mentions_node(value: ast.AST | None) -> bool:
-        return value is not None and any(isinstance(n, ast.Name) and n.id.startswith("<each ") and n.id.endswith("topology.nodes>") for n in ast.walk(value))
-
-    def depends_on_loop(expr: ast.AST) -> bool:
-        return bool(rd.closure(rd.uses(expr)) & loop_defs)
-
-    # ---- returns
-    n_checked = 0
-    for ret, _ in rd.returns:
-        if ret.value is None or (isinstance(ret.value, ast.Constant) and ret.value.value is None):
-            continue
-        n_checked += 1
-        key = f"{fn.qual}::return {unparse(ret.value)}"
-        dep = depends_on_loop(ret.value)
-        deps_txt = sorted({d.name for d in rd.closure(rd.uses(ret.value))})
-        if not dep:
-            ctx.violation(
-                "R-DEPENDS", key, tree.loc(ret),
-                f"{fn.qual}: `{unparse(ret)}` does not depend on the node `{loop_var}` whose coefficient was mapped to its partner (depends on {deps_txt} only)",
-                "a value computed from the whole transition (the product over ALL nodes) cannot tell which node was flipped: for two parity-constrained nodes of unlike eta of which one is flipped the chain gets the wrong sign",
-            )
-            continue
-        inside = any(a is loop for a in ancestors(ret))
-        if inside:
-            # a value handed out from inside the node loop never saw the remaining nodes: whatever it is, it is
-            # not the product over ALL flipped nodes of the chain (and without the flip test not even of this one)
-            guarded = paths.flipped_on_every_path(ret)
-            ctx.verdict(False, "R-DEPENDS", key + "::guard", tree.loc(ret), f"{fn.qual}: in-loop `{unparse(ret)}` is guarded by the flip test of that node and is the product over all flipped nodes",
-                        "returned before the remaining nodes of the chain were looked at: the parity factors of flipped nodes that come later are dropped" if guarded
-                        else "returned for a node that was not mapped to a partner")
-        else:
-            ctx.ok("R-DEPENDS", tree.loc(ret), f"{fn.qual}: `{unparse(ret)}` depends on the node loop variable `{loop_var}`")
-    if n_checked == 0:
-        raise AnalysisError(f"{fn.qual}: no non-None return")
-    # ---- the node loop runs over ALL nodes: leaving it early drops the parity factors of the flipped nodes that follow
-    in_loop = lambda n: any(a is loop for a in ancestors(n))  # noqa: E731
-    nearest_loop = lambda n: next((a for a in ancestors(n) if isinstance(a, (ast.For, ast.While))), None)  # noqa: E731
-    for node in walk_function(loop, nested=False):
-        early = (isinstance(node, ast.Break) and nearest_loop(node) is loop) or (isinstance(node, ast.Return) and (node.value is None or (isinstance(node.value, ast.Constant) and node.value.value is None)))
-        if early:
-            ctx.violation("R-DEPENDS", f"{fn.qual}::loop-left-early::{unparse(node)}", tree.loc(node),
-                          f"{fn.qual}: `{unparse(node)}` leaves the loop over the nodes of the chain before all nodes were looked at",
-                          "the parity factors of flipped nodes that come later in the chain are dropped (a guard clause of a per-node test is `continue`)")
-    ctx.section(check_none_means_one, ctx, tree, fn, loop, paths)
-
-    # ---- contributions inside the loop: accumulator updates that reach a return
-    returned_names = set()
-    for ret, _ in rd.returns:
-        if ret.value is not None:
-            returned_names |= {d.name for d in rd.closure(rd.uses(ret.value))}
-    n_updates = 0
-    for node in walk_function(loop):
-        target = None
-        value = None
-        if isinstance(node, ast.AugAssign) and isinstance(node.target, ast.Name):
-            target, value = node.target.id, node.value
-        elif isinstance(node, ast.Assign) and len(node.targets) == 1 and isinstance(node.targets[0], ast.Name):
-            t = node.targets[0].id
-            if any(isinstance(n, ast.Name) and n.id == t for n in ast.walk(node.value)):
-                target, value = t, node.value
-        if target is None or target not in returned_names:
-            continue
-        n_updates += 1
-        key = f"{fn.qual}::update {unparse(node)}"
-        # judged per path, on the value the factor has there (helpers and local definitions substituted):
-        # a factor that is the constant 1 contributes nothing; every other factor needs the flip test of its node
-        guarded = dep = takes_factor = True
-        for facts, factor in paths.at(node):
-            if factor is not None and isinstance(factor, ast.Constant) and not isinstance(factor.value, bool) and factor.value in {1, 1.0}:
-                continue
-            flipped, raws = flip_status(facts, fn.qual)
-            paths.raws += raws
-            guarded = guarded and flipped
-            dep = dep and mentions_node(factor)
-            takes_factor = takes_factor and any(isinstance(n, ast.Attribute) and n.attr == "parity_prefactor" for n in ast.walk(factor))
-        dep = dep and depends_on_loop(value)
-        problems = []
-        if not guarded:
-            problems.append("applied to nodes that were NOT mapped to a partner (not under `mapped != raw`)")
-        if not dep:
-            problems.append(f"the factor does not depend on `{loop_var}`")
-        if not takes_factor:
-            if paths.sym.opaque_calls:
-                raise AnalysisError(f"{fn.qual}: the factor of `{unparse(node)}` comes out of `{sorted(paths.sym.opaque_calls)[0]}(...)`, which the path analysis could not follow")
-            problems.append("the factor is not interaction.parity_prefactor")
-        ctx.verdict(not problems, "R-DEPENDS", key, tree.loc(node), f"{fn.qual}: `{unparse(node)}` multiplies the parity factor of exactly the flipped node", problems or None)
-    ctx.stats["in_loop_updates"] = n_updates
-
-    # ---- delegation: the loop only COLLECTS the flipped nodes and a helper multiplies their factors
-    n_collect = 0
-    for node in walk_function(loop):
-        coll = None
-        if isinstance(node, ast.Call) and isinstance(node.func, ast.Attribute) and node.func.attr in {"append", "add"} and isinstance(node.func.value, ast.Name) and len(node.args) == 1:
-            coll, item = node.func.value.id, node.args[0]
-        elif isinstance(node, ast.AugAssign) and isinstance(node.op, ast.Add) and isinstance(node.target, ast.Name) and isinstance(node.value, (ast.List, ast.Tuple)) and len(node.value.elts) == 1:
-            coll, item = node.target.id, node.value.elts[0]
-        if coll is None or coll not in returned_names:
-            continue
-        n_collect += 1
-        key = f"{fn.qual}::collect {unparse(node)}"
-        problems = []
-        if not paths.flipped_on_every_path(node):
-            problems.append("nodes are collected that were NOT mapped to a partner (not under `mapped != raw`)")
-        if unparse(item) != loop_var:
-            problems.append(f"collects `{unparse(item)}`, not the node `{loop_var}`")
-        ctx.verdict(not problems, "R-DEPENDS", key, tree.loc(node), f"{fn.qual}: `{unparse(node)}` collects exactly the flipped nodes", problems or None)
-        # every repo function that receives the collection and feeds the result must multiply over exactly that selection
-        consumers = 0
-        for call in [c for c in walk_function(fn.node) if isinstance(c, ast.Call)]:
-            pos = [i for i, a in enumerate(call.args) if isinstance(a, ast.Name) and a.id == coll]
-            kws = [k.arg for k in call.keywords if isinstance(k.value, ast.Name) and k.value.id == coll and k.arg]
-            if not pos and not kws:
-                continue
-            callee = tree.callee(call, fn)
-            tgt = tree.funcs.get(callee) if callee else None
-            if tgt is None:
-                if isinstance(call.func, ast.Attribute) and call.func.attr in {"append", "add"}:
-                    continue
-                raise AnalysisError(f"{fn.qual}: the collected nodes are handed to `{unparse(call.func)}`, which is not a function of the package")
-            params = tgt.params[1:] if tgt.cls is not None and tgt.params[:1] in (["self"], ["cls"]) else tgt.params
-            pname = kws[0] if kws else params[pos[0]]
-            consumers += 1
-            check_selection_product(ctx, tree, tgt, pname)
-        if not consumers:
-            raise AnalysisError(f"{fn.qual}: collected nodes `{coll}` reach the result through an unknown shape")
-    if n_updates + n_collect == 0:
-        raise AnalysisError(f"{fn.qual}: neither an in-loop product nor a collection of flipped nodes found - the rule would pass vacuously")
-
-    # ---- the raw suffix that is looked up is the suffix of that node
-    # (the suffixes that the flip tests on the paths compare - wherever they are computed: in the loop, in a helper)
-    lookups = [n for n in walk_function(loop) if is_raw(n)]
-    ok = bool(paths.raws or lookups) and all(raw_node(c) is not None and mentions_node(raw_node(c)) and isinstance(raw_node(c), ast.Name) for c in paths.raws)
-    ok = ok and all(raw_node(c) is not None and unparse(raw_node(c)) == loop_var for c in lookups)
-    ctx.verdict(ok, "R-DEPENDS", f"{fn.qual}::raw-suffix-of-node", tree.loc(loop), f"the raw suffix is generate_two_body_decay_suffix(transition, {loop_var}) of the loop's node")
-
-    ctx.section(check_partner_suffix, ctx, tree)
-    ctx.section(check_partner_key_flags, ctx, tree)
-    ctx.section(check_daughter_order, ctx, tree)
-    # the per-chain components A_{...} are an observation point of the property: they must be the complete
-    # chain amplitude including the parity sign (rule shared with C02)
-    from .c02 import check_products
-
-    ctx.section(check_products, ctx, tree, symmetrisation=False)  # (the symmetrisation clause of the components belongs to C02)
-    # "equivalently ... the Clebsch-Gordan expansion reproduces the canonical intensity": the expansion is the two-CG product of C02
-    from .c02 import check_cg
-
-    ctx.section(check_cg, ctx, tree)
-
-
-def check_partner_suffix(ctx: Check, tree: Tree) -> None:
-    cls = tree.cls("ampform.helicity.naming::HelicityAmplitudeNameGenerator")
+def check_partner_suffix_value(ctx: Check, tree: Tree, cls) -> None:
+    """R-PARTNER: the partner suffix renders the parent WITHOUT helicity and BOTH daughters with
+    make_parity_partner=True.  Read off the value __generate_amplitude_coefficient_couple hands out: every
+    `_state_to_str(state, use_helicity, make_parity_partner)` in it (arguments bound by parameter name, helpers
+    and string building followed) is classified by the state it renders - the parent / a daughter delivered by
+    get_helicity_info(transition, node)."""
     couple = cls.methods.get("__generate_amplitude_coefficient_couple")
     if couple is None:
         raise AnalysisError("vanished anchor: __generate_amplitude_coefficient_couple")
-    calls = [c for c in walk_function(couple.node) if isinstance(c, ast.Call) and isinstance(c.func, ast.Name) and c.func.id == "_state_to_str"]
-    partner_calls = [c for c in calls if any(k.arg == "make_parity_partner" and isinstance(k.value, ast.Constant) and k.value.value is True for k in c.keywords)]
-    parent_calls = [c for c in calls if any(k.arg == "use_helicity" and isinstance(k.value, ast.Constant) and k.value.value is False for k in c.keywords)]
-    ok = False
-    if len(partner_calls) == 1 and len(parent_calls) == 1:
-        # the partner call sits in a generator over both outgoing states; incoming/outgoing
-        # come from get_helicity_info(transition, node_id) (tuple positions 0 / 1)
-        crd = RD(couple.node)
-        gen = next((a for a in ancestors(partner_calls[0]) if isinstance(a, ast.GeneratorExp)), None)
-
-        def helicity_info_index(name_node):
-            idx = set()
-            for d in crd.reaching(name_node) if isinstance(name_node, ast.Name) else ():
-                if d.value is not None and "get_helicity_info(" in unparse(d.value):
-                    idx.add(d.index)
-            return idx
-
-        ok = (
-            gen is not None
-            and not gen.generators[0].ifs
-            and helicity_info_index(gen.generators[0].iter) == {1}
-            and helicity_info_index(parent_calls[0].args[0]) == {0}
-            and isinstance(gen.generators[0].target, ast.Name)
-            and unparse(partner_calls[0].args[0]) == gen.generators[0].target.id
-        )
-    ctx.verdict(ok, "R-PARTNER", f"{couple.qual}::partner-suffix", tree.loc(couple.node),
-                "partner suffix = parent (no helicity) -> both daughters with make_parity_partner=True", None if ok else [unparse(c) for c in calls])
     sts = tree.func("ampform.helicity.naming::_state_to_str")
-    # the value rendered as helicity under make_parity_partner / otherwise: `if flag: a else: b`,
-    # `if not flag: b else: a` and `a if flag else b` are the same thing
-    flag, when = "make_parity_partner", {}
-    for n in walk_function(sts.node):
-        test = getattr(n, "test", None)
-        if not isinstance(n, (ast.If, ast.IfExp)) or test is None:
+    paths = PathFacts(tree, couple, atoms={"_state_to_str", "get_helicity_info"})
+    sym = paths.sym
+    is_info = lambda e: isinstance(e, ast.Call) and (e.func.attr if isinstance(e.func, ast.Attribute) else getattr(e.func, "id", None)) == "get_helicity_info"  # noqa: E731
+
+    def index(e: ast.AST, of) -> int | None:
+        """k if e is ``<of>[k]``."""
+        if isinstance(e, ast.Subscript) and of(e.value) and isinstance(e.slice, ast.Constant) and isinstance(e.slice.value, int):
+            return e.slice.value
+        return None
+
+    is_children = lambda e: index(e, is_info) == 1  # noqa: E731
+    calls: list[tuple[ast.Call, ast.ListComp | None]] = []
+    seen = set()
+
+    def collect(n: ast.AST, seq) -> None:
+        if isinstance(n, ast.Call) and (n.func.attr if isinstance(n.func, ast.Attribute) else getattr(n.func, "id", None)) == "_state_to_str":
+            if ast.dump(n) not in seen:
+                seen.add(ast.dump(n))
+                calls.append((n, seq))
+        if _is_seq(n):
+            collect(n.elt, n)
+            for c in n.generators[0].ifs:
+                collect(c, seq)
+            return
+        for c in ast.iter_child_nodes(n):
+            collect(c, seq)
+
+    for _, value in paths.finals:
+        collect(value, None)
+    key = f"{couple.qual}::partner-suffix"
+    shown = [unparse(c)[:120] for c, _ in calls]
+    if not calls:
+        raise AnalysisError(f"{couple.qual}: no _state_to_str(...) in the value handed out - cannot tell how the partner suffix is rendered")
+    problems, parent_ok, daughters, plain = [], False, set(), set()
+    for call, seq in calls:
+        b = _bind_signature(call, sts)
+        if b is None or not {"state", "use_helicity", "make_parity_partner"} <= set(b):
+            raise AnalysisError(f"{couple.qual}: cannot bind the arguments of `{unparse(call)[:100]}` to the parameters of _state_to_str")
+        state, use, partner = b["state"], _const(b["use_helicity"]), _const(b["make_parity_partner"])
+        if index(state, is_info) == 0:  # the parent
+            if use is False:
+                parent_ok = True
+            elif use is True:
+                problems.append(f"the parent is rendered WITH its helicity in `{unparse(call)[:100]}`: the partner suffix never equals an own suffix")
+            else:
+                raise AnalysisError(f"{couple.qual}: `use_helicity` of the parent is `{unparse(b['use_helicity'])[:60]}` - not a constant")
             continue
-        positive = unparse(test) == flag
-        negative = isinstance(test, ast.UnaryOp) and isinstance(test.op, ast.Not) and unparse(test.operand) == flag
-        if not (positive or negative):
-            continue
-        if isinstance(n, ast.IfExp):
-            a, b = n.body, n.orelse
-        elif len(n.body) == 1 and len(n.orelse) == 1 and all(isinstance(x, ast.Assign) for x in (n.body[0], n.orelse[0])) and unparse(n.body[0].targets[0]) == unparse(n.orelse[0].targets[0]):
-            a, b = n.body[0].value, n.orelse[0].value
+        which = None
+        if isinstance(state, ast.Name) and state.id in sym.elements and is_children(sym.elements[state.id]):
+            if seq is None or not isinstance(seq.generators[0].target, ast.Name) or seq.generators[0].target.id != state.id:
+                raise AnalysisError(f"{couple.qual}: `{unparse(call)[:100]}` renders a daughter outside a sequence over the daughters")
+            filters = seq.generators[0].ifs
+            if filters:
+                problems.append(f"not every daughter is rendered: {', '.join(unparse(c)[:60] for c in filters)}")
+            which = {0, 1}
+        elif index(state, is_children) in (0, 1):
+            which = {index(state, is_children)}
+        if which is None:
+            raise AnalysisError(f"{couple.qual}: `{unparse(call)[:100]}` renders `{unparse(state)[:60]}` - neither the parent nor a daughter delivered by get_helicity_info")
+        if use is not True:
+            if use is False:
+                problems.append(f"a daughter is rendered WITHOUT helicity in `{unparse(call)[:100]}`")
+            else:
+                raise AnalysisError(f"{couple.qual}: `use_helicity` of a daughter is `{unparse(b['use_helicity'])[:60]}` - not a constant")
+        if partner is True:
+            daughters |= which
+        elif partner is False:
+            plain |= which  # a daughter rendered with its own helicity
+        elif any(isinstance(n, ast.Name) and n.id in sym.elements for n in ast.walk(b["make_parity_partner"])) or any(index(n, is_children) is not None for n in ast.walk(b["make_parity_partner"])):
+            problems.append(f"make_parity_partner is `{unparse(b['make_parity_partner'])[:80]}`: it differs between the daughters, so not both helicities are reversed")
         else:
+            raise AnalysisError(f"{couple.qual}: make_parity_partner is `{unparse(b['make_parity_partner'])[:60]}` - not a constant")
+    if not problems:
+        if not parent_ok:
+            raise AnalysisError(f"{couple.qual}: the parent (get_helicity_info(...)[0]) is not rendered by _state_to_str - cannot tell whether its helicity is suppressed")
+        if ({0, 1} - daughters) - plain:
+            raise AnalysisError(f"{couple.qual}: daughter(s) {sorted(({0, 1} - daughters) - plain)} are not rendered by _state_to_str - cannot tell whether their helicity is reversed in the partner suffix")
+        if daughters != {0, 1}:
+            missing = sorted({0, 1} - daughters)
+            problems.append(f"daughter(s) {missing} are not rendered with make_parity_partner=True: the partner suffix does not reverse both daughter helicities")
+    ctx.verdict(not problems, "R-PARTNER", key, tree.loc(couple.node),
+                "partner suffix = parent (no helicity) -> both daughters with make_parity_partner=True", None if not problems else {"problems": problems, "_state_to_str calls": shown})
+
+
+NUMBER_RENDERERS = {"_render_float", "sympy.Rational", "sympy.sympify", "sympy.S", "sympy.Float", "sympy.Integer", "sympy.nsimplify", "float", "int", "str", "repr",
+                    "format", "fractions.Fraction"}
+
+
+def check_negated_helicity(ctx: Check, tree: Tree) -> None:
+    """R-PARTNER: `_state_to_str` renders the NEGATED spin projection under make_parity_partner and the spin
+    projection itself otherwise.  Decided per path on the value handed out: every occurrence of
+    `state.spin_projection` in it, with the sign it carries (`-x`, `-1 * x`, `x * -1`, `0 - x`)."""
+    sts = tree.func("ampform.helicity.naming::_state_to_str")
+    params = sts.params
+    if len(params) < 3 or "make_parity_partner" not in params:
+        raise AnalysisError(f"{sts.qual}: no parameter make_parity_partner any more")
+    state_p, flag = params[0], "make_parity_partner"
+    paths = PathFacts(tree, sts, atoms={"_render_float"})
+    sym = paths.sym
+
+    def number(n: ast.AST):
+        if isinstance(n, ast.Constant) and isinstance(n.value, (int, float)) and not isinstance(n.value, bool):
+            return n.value
+        if isinstance(n, ast.UnaryOp) and isinstance(n.op, ast.USub) and number(n.operand) is not None:
+            return -number(n.operand)
+        return None
+
+    def occurrences(v: ast.AST) -> list[int | None]:
+        out: list[int | None] = []
+
+        def times(sign, c):
+            return None if sign is None or c not in (1, -1) else sign * c
+
+        def visit(n: ast.AST, sign) -> None:
+            if isinstance(n, ast.Attribute) and n.attr == "spin_projection" and isinstance(n.value, ast.Name) and n.value.id == state_p:
+                out.append(sign)
+                return
+            if isinstance(n, ast.UnaryOp) and isinstance(n.op, (ast.USub, ast.UAdd)):
+                visit(n.operand, times(sign, -1 if isinstance(n.op, ast.USub) else 1))
+                return
+            if isinstance(n, ast.BinOp) and isinstance(n.op, ast.Mult):
+                for a, b in ((n.left, n.right), (n.right, n.left)):
+                    if number(a) is not None:
+                        visit(b, times(sign, number(a)))
+                        return
+                visit(n.left, None)
+                visit(n.right, None)
+                return
+            if isinstance(n, ast.BinOp) and isinstance(n.op, ast.Sub) and number(n.left) == 0:
+                visit(n.right, times(sign, -1))
+                return
+            if isinstance(n, ast.BinOp):
+                inner = 1 if isinstance(n.op, ast.Add) and (_stringy(n.left) or _stringy(n.right)) else None  # string concatenation / arithmetic
+                visit(n.left, inner)
+                visit(n.right, inner)
+                return
+            if isinstance(n, ast.Call):
+                name = sym._fname(n.func)
+                last = n.func.attr if isinstance(n.func, ast.Attribute) else getattr(n.func, "id", None)
+                inner = 1 if (name in NUMBER_RENDERERS or last in NUMBER_RENDERERS or (isinstance(n.func, ast.Attribute) and n.func.attr in {"join", "format"})) else None
+                for c in ast.iter_child_nodes(n):
+                    visit(c, inner)
+                return
+            for c in ast.iter_child_nodes(n):
+                visit(c, 1)
+
+        visit(v, 1)
+        return out
+
+    def _stringy(n: ast.AST) -> bool:
+        if isinstance(n, ast.JoinedStr) or (isinstance(n, ast.Constant) and isinstance(n.value, str)):
+            return True
+        if isinstance(n, ast.BinOp) and isinstance(n.op, ast.Add):
+            return _stringy(n.left) or _stringy(n.right)
+        if isinstance(n, ast.Call):
+            last = n.func.attr if isinstance(n.func, ast.Attribute) else getattr(n.func, "id", None)
+            return last in {"join", "format", "str", "repr", "_render_float"}
+        return False
+
+    def flag_value(facts, name: str) -> bool | None | str:
+        val = None
+        for test, outcome in atoms(facts):
+            if isinstance(test, ast.Name) and test.id == name:
+                v = outcome
+            elif isinstance(test, ast.Compare) and len(test.ops) == 1 and isinstance(test.left, ast.Name) and test.left.id == name and isinstance(test.comparators[0], ast.Constant) and isinstance(test.comparators[0].value, bool):
+                if isinstance(test.ops[0], (ast.Is, ast.Eq)):
+                    v = outcome == test.comparators[0].value
+                elif isinstance(test.ops[0], (ast.IsNot, ast.NotEq)):
+                    v = outcome != test.comparators[0].value
+                else:
+                    return "?"
+            elif any(isinstance(n, ast.Name) and n.id == name for n in ast.walk(test)):
+                return "?"
+            else:
+                continue
+            if val is not None and val != v:
+                return "?"
+            val = v
+        return val
+
+    problems, seen_partner, seen_plain = [], False, False
+    for st, value in paths.finals:
+        partner = flag_value(st.facts, flag)
+        use = flag_value(st.facts, "use_helicity") if "use_helicity" in params else None
+        if partner == "?" or use == "?":
+            raise AnalysisError(f"{sts.qual}: a condition on `{flag}` / `use_helicity` is not a plain test of the flag - cannot decide the path")
+        occ = occurrences(value)
+        if not occ:
+            if use is False:
+                continue
+            hidden = sym.opaque_calls(value)
+            raise AnalysisError(f"{sts.qual}: no `{state_p}.spin_projection` in the value `{unparse(value)[:100]}` handed out on a path that renders the helicity" + (f" (`{hidden[0]}(...)` was not followed)" if hidden else ""))
+        if any(s is None for s in occ):
+            raise AnalysisError(f"{sts.qual}: `{state_p}.spin_projection` enters `{unparse(value)[:120]}` through arithmetic that is not a sign - cannot decide whether the helicity is negated")
+        if partner is None:
+            if any(isinstance(n, ast.Name) and n.id == flag for n in ast.walk(value)):
+                raise AnalysisError(f"{sts.qual}: `{flag}` enters the value `{unparse(value)[:120]}` without a test of the flag - cannot decide the sign of the helicity")
+            problems.append(f"the helicity is rendered as `{'-' if occ[0] < 0 else ''}{state_p}.spin_projection` on a path that does not test `{flag}`: the flag has no effect there")
             continue
-        when = {True: a, False: b} if positive else {True: b, False: a}
-    ok = bool(when) and unparse(when[True]).replace(" ", "") in {"-1*state.spin_projection", "-state.spin_projection", "state.spin_projection*-1"} and unparse(when[False]) == "state.spin_projection"
-    ctx.verdict(ok, "R-PARTNER", f"{sts.qual}::negated-helicity", tree.loc(sts.node), "_state_to_str: make_parity_partner renders the negated helicity, otherwise the helicity itself")
+        want = -1 if partner else 1
+        if set(occ) != {want}:
+            problems.append(f"with {flag}={partner} the value `{unparse(value)[:100]}` carries the helicity with sign(s) {sorted(set(occ))}, expected {want:+d}")
+        seen_partner = seen_partner or partner is True
+        seen_plain = seen_plain or partner is False
+    if not problems and not (seen_partner and seen_plain):
+        raise AnalysisError(f"{sts.qual}: no path renders the helicity with {flag}={'True' if not seen_partner else 'False'} - the rule would pass vacuously")
+    ctx.verdict(not problems, "R-PARTNER", f"{sts.qual}::negated-helicity", tree.loc(sts.node),
+                "_state_to_str: make_parity_partner renders the negated helicity, otherwise the helicity itself", sorted(set(problems)) or None)
+
+
+def check_sequential_suffix(ctx: Check, tree: Tree, cls) -> None:
+    """R-PARTNER: on every path the sequential suffix is `sep.join(...)` over ALL nodes (one element per node, no
+    filter) of the coefficient suffix of the node: mapping.get(raw, raw) == (mapping[raw] if raw in mapping else raw)."""
     seq = cls.methods.get("generate_sequential_amplitude_suffix")
     if seq is None:
         raise AnalysisError("vanished anchor: generate_sequential_amplitude_suffix")
-    # on every path the result is `sep.join(...)` over ALL nodes (one element per node, no filter) of the
-    # coefficient suffix of the node: mapping.get(raw, raw) == (mapping[raw] if raw in mapping else raw)
-    problems = []
-    for st, value in PathFacts(tree, seq).finals:
+    paths = PathFacts(tree, seq)
+    sym = paths.sym
+    problems, undecided = [], []
+    for st, value in paths.finals:
         ats = atoms(st.facts)
         joined = value.args[0] if (isinstance(value, ast.Call) and isinstance(value.func, ast.Attribute) and value.func.attr == "join"
                                    and isinstance(value.func.value, ast.Constant) and len(value.args) == 1 and not value.keywords) else None
         if not _is_seq(joined):
-            problems.append(f"returns `{unparse(value)[:120]}`, not a separator joined over the nodes")
+            undecided.append(f"returns `{unparse(value)[:120]}` - cannot read that as a separator joined over the nodes")
             continue
         gen = joined.generators[0]
-        if not unparse(gen.iter).endswith("topology.nodes"):
-            problems.append(f"the joined sequence ranges over `{unparse(gen.iter)}`, not over transition.topology.nodes")
-        if gen.ifs:
-            problems.append(f"not every node contributes exactly one suffix: {', '.join(unparse(c) for c in gen.ifs)}")
+        if not node_source(gen.iter) or unparse(gen.iter).endswith(".interactions"):
+            undecided.append(f"the joined sequence ranges over `{unparse(gen.iter)[:80]}` - cannot tell whether these are the nodes of the chain in their order")
+            continue
+        # (a deterministic re-ordering of the nodes - sorted / reversed - changes the spelling of the name for every
+        # chain alike; which suffix a node contributes is what is decided here)
+        filters = [c for c in gen.ifs if not (is_marker(c) and c.id.startswith("<1 elements"))]
+        dropping = [c for c in filters if is_marker(c) or mentions_mapping(c) or any(is_raw(n) for n in ast.walk(c))]
+        if dropping:
+            problems.append(f"not every node contributes exactly one suffix: {', '.join(unparse(c) for c in dropping)}")
+        elif filters:
+            undecided.append(f"the nodes are filtered by `{unparse(filters[0])[:80]}` - cannot tell whether that drops a node")
+            continue
         elt = joined.elt
         raw = elt if is_raw(elt) else elt.slice if isinstance(elt, ast.Subscript) else elt.args[0] if isinstance(elt, ast.Call) and elt.args else None
-        if raw is None or not is_raw(raw) or raw_node(raw) is None or not _same(raw_node(raw), ast.Name(id=gen.target.id, ctx=ast.Load())):
-            problems.append(f"the element `{unparse(elt)[:120]}` is not derived from the raw suffix of the node")
-        elif elt is raw:
+        if isinstance(elt, ast.Constant):
+            problems.append(f"a node contributes the constant {elt.value!r} instead of its coefficient suffix" + (" when its suffix is not registered" if registered_any(ats) is False else ""))
+            continue
+        if raw is None or not is_raw(raw) or raw_node(raw) is None:
+            hidden = sym.opaque_calls(elt)
+            undecided.append(f"the element `{unparse(elt)[:120]}` is not read as derived from the raw suffix of the node" + (f" (`{hidden[0]}(...)` was not followed)" if hidden else ""))
+            continue
+        if not (isinstance(gen.target, ast.Name) and _same(raw_node(raw), ast.Name(id=gen.target.id, ctx=ast.Load()))):
+            other = raw_node(raw)
+            if isinstance(other, ast.Constant) or (isinstance(other, ast.Name) and other.id in sym.elements):
+                problems.append(f"the element `{unparse(elt)[:120]}` is the suffix of `{unparse(other)}`, not of the node of the iteration")
+            else:
+                undecided.append(f"the element `{unparse(elt)[:120]}` is the suffix of `{unparse(other)[:60]}` - cannot tell whether that is the node of the iteration")
+            continue
+        if elt is raw:
             if registered(raw, ats) is not False:
-                problems.append("the raw suffix of a node is used although it may be registered with a partner (not mapped)")
+                strange = [unparse(t)[:80] for t, _ in ats if (mentions_mapping(t) or any(is_raw(n) for n in ast.walk(t)))
+                           and _asserts((t, True), is_raw, ast.In, ast.NotIn, is_mapping_keys) is None]
+                if st.imprecise or strange or any(sym.opaque_calls(t) for t, _ in ats):
+                    undecided.append("the raw suffix of a node is used under a condition that was not followed" + (f" (`{strange[0]}`)" if strange else ""))
+                else:
+                    problems.append("the raw suffix of a node is used although it may be registered with a partner (not mapped)")
         elif isinstance(elt, ast.Subscript):
-            if not (mapped_value(elt, raw, ats) and registered(raw, ats) is True):
-                problems.append(f"`{unparse(elt)[:120]}` on a path where the suffix is not known to be registered")
-        elif not (mapped_value(elt, raw, ats) and len(elt.args) == 2):
-            problems.append(f"`{unparse(elt)[:120]}` is not the mapped suffix with the raw suffix as fallback")
+            if not mapped_value(elt, raw, ats):
+                undecided.append(f"`{unparse(elt)[:120]}` is not a look-up in the partner mapping")
+            elif registered(raw, ats) is not True:
+                undecided.append(f"`{unparse(elt)[:120]}` on a path where the suffix is not known to be registered (raises for an unregistered suffix)")
+        elif isinstance(elt, ast.Call) and isinstance(elt.func, ast.Attribute) and elt.func.attr == "get" and is_mapping(elt.func.value) and not elt.keywords:
+            if not (len(elt.args) == 2 and _same(elt.args[1], raw)):
+                if len(elt.args) == 1 or isinstance(elt.args[1], ast.Constant):
+                    problems.append(f"`{unparse(elt)[:120]}` is not the mapped suffix with the raw suffix as fallback: an unregistered node contributes `{unparse(elt.args[1]) if len(elt.args) == 2 else None}`")
+                else:
+                    undecided.append(f"`{unparse(elt)[:120]}`: cannot tell whether the fallback is the raw suffix")
+        else:
+            undecided.append(f"`{unparse(elt)[:120]}` is not read as the mapped suffix of the node")
+    if not problems and undecided:
+        raise AnalysisError(f"{seq.qual}: " + "; ".join(sorted(set(undecided))[:2]))
     ctx.verdict(not problems, "R-PARTNER", f"{seq.qual}::maps-each-node", tree.loc(seq.node), "generate_sequential_amplitude_suffix maps the suffix of every node through the partner mapping",
                 sorted(set(problems)) or None)
-    check_mapping_accessor(ctx, tree, cls)
+
+
+def check_only_parity_nodes(ctx: Check, tree: Tree, cls) -> None:
+    """R-PARTNER: only nodes with a parity prefactor take part in the partner mapping: every store into the
+    mapping in __register_amplitude_coefficient_name (aliases, helpers followed) happens on paths that know
+    `<interaction of the node>.parity_prefactor is not None`."""
     reg = cls.methods.get("__register_amplitude_coefficient_name")
-    conts = [n for n in walk_function(reg.node) if isinstance(n, ast.If) and "parity_prefactor is None" in unparse(n.test) and any(isinstance(s, ast.Continue) for s in n.body)]
-    ctx.verdict(len(conts) == 1, "R-PARTNER", f"{reg.qual}::only-parity-nodes", tree.loc(reg.node), "only nodes with a parity prefactor take part in the partner mapping")
+    if reg is None:
+        raise AnalysisError("vanished anchor: __register_amplitude_coefficient_name")
+    paths = PathFacts(tree, reg, atoms={"__generate_amplitude_coefficient_couple"})
+    sym = paths.sym
+    is_pp = lambda e: isinstance(e, ast.Attribute) and e.attr == "parity_prefactor"  # noqa: E731
+    n_stores, bad, undecided, seen = 0, [], [], set()
+    for st, _ in paths.finals:
+        for container, n, stmt in st.stores:
+            if not is_mapping(container):
+                continue
+            facts = st.facts[:n]
+            k = (id(stmt), tuple((ast.dump(t), o) for t, o in facts))
+            if k in seen:
+                continue
+            seen.add(k)
+            n_stores += 1
+            ats = atoms(facts)
+            knows = any(_asserts(at, is_pp, ast.IsNot, ast.Is, is_none) for at in ats)
+            if knows:
+                continue
+            about = [unparse(t)[:80] for t, _ in ats if any(is_pp(x) for x in ast.walk(t))]
+            hidden = [c for t, _ in ats for c in sym.opaque_calls(t)]
+            hidden += [unparse(t)[:80] for t, _ in ats if not (isinstance(t, ast.Compare) and isinstance(t.ops[0], (ast.In, ast.NotIn, ast.Eq, ast.NotEq)) and len(t.ops) == 1)
+                       and any(isinstance(c, ast.Call) and (c.func.attr if isinstance(c.func, ast.Attribute) else getattr(c.func, "id", None)) in sym.atoms for c in ast.walk(t))]
+            if about or hidden or st.imprecise:
+                undecided.append(f"`{unparse(stmt)[:80]}` under `{(about or hidden or st.imprecise)[0]}`")
+            else:
+                bad.append(f"`{unparse(stmt)[:100]}` is reached without a test of parity_prefactor")
+    if n_stores == 0:
+        raise AnalysisError(f"{reg.qual}: no store into the partner mapping found on any path - cannot tell which nodes are registered")
+    if undecided and not bad:
+        raise AnalysisError(f"{reg.qual}: cannot decide whether the store {sorted(set(undecided))[0]} only happens for nodes with a parity prefactor")
+    ctx.stats["mapping_stores_judged"] = n_stores
+    ctx.verdict(not bad, "R-PARTNER", f"{reg.qual}::only-parity-nodes", tree.loc(reg.node), "only nodes with a parity prefactor take part in the partner mapping", sorted(set(bad)) or None)
+
+
+def check_partner_suffix(ctx: Check, tree: Tree) -> None:
+    cls = tree.cls("ampform.helicity.naming::HelicityAmplitudeNameGenerator")
+    ctx.section(check_partner_suffix_value, ctx, tree, cls)
+    ctx.section(check_negated_helicity, ctx, tree)
+    ctx.section(check_sequential_suffix, ctx, tree, cls)
+    ctx.section(check_mapping_accessor, ctx, tree, cls)
+    ctx.section(check_only_parity_nodes, ctx, tree, cls)
 
 
 def check_mapping_accessor(ctx: Check, tree: Tree, cls) -> None:
@@ -1160,3 +2329,32 @@ def check_mapping_accessor(ctx: Check, tree: Tree, cls) -> None:
         if not live:
             raise AnalysisError(f"{acc.qual}: returns `{unparse(values[0])[:100]}` - cannot decide whether that is the current partner mapping")
         ctx.ok("R-PARTNER", tree.loc(acc.node), f"{acc.qual}: every read of `{MAPPING}` evaluates the current `self.__{MAPPING}` (not memoised" + (", never re-bound)" if not rebinders else ")"))
+
+
+def check_prefactor_section(ctx: Check, tree: Tree) -> None:
+    check_prefactor(ctx, tree, locate_prefactor_function(tree))
+
+
+def run(ctx: Check, tree: Tree) -> None:
+    ctx.decided += [
+        'R-PARTNER (display flags): the strings that decide coefficient sharing and the parity flip do not depend on display flags of the name generator',
+        "R-DEPENDS: the value handed out by the parity-prefactor function is, on every path, a product over the nodes of the chain (accumulator loop, reduce / math.prod / sp.Mul over a sequence, one- or two-phase, helpers / closures / generator functions followed) that starts from 1; every factor a node contributes is contributed only under the per-node test `mapped suffix != raw suffix` of that node's raw suffix and is the parity factor of that node (decided on the paths of the function: guard clauses, nested ifs, extracted predicates / per-node helpers, `mapping.get(raw, raw)`, try/except KeyError read the same); a loop over the nodes is never left early; None is answered only where the product is known to be 1",
+        "R-TERM (shared with C02): the canonical expansion used by the equivalence clause is CG(L,0;S,d|J,d) * CG(s1,l1;s2,-l2|S,d) on every path",
+        "R-PARTNER: in the value of the partner suffix every _state_to_str renders the parent without helicity and both daughters with make_parity_partner=True (arguments by parameter, helpers followed); _state_to_str hands out the negated spin projection exactly on the paths with make_parity_partner; the sequential suffix joins, for EVERY node, the suffix the partner mapping gives for the node's raw suffix (the raw suffix itself if unregistered) - loop or comprehension; every store into the partner mapping happens under `parity_prefactor is not None`; the daughters are ordered by a key that does not read the helicity; the accessor of the mapping is not memoised while the mapping is re-bound",
+    ]
+    ctx.not_decided += ["equivalence with the canonical formalism for all LS coefficient values (numerical)", "which interactions qrules marks with a parity prefactor"]
+    ctx.assumptions += ["qrules InteractionProperties.parity_prefactor is eta = P P1 P2 (-1)^(J-s1-s2) of that node",
+                        "qrules: StateTransition.interactions is defined for exactly the nodes of the topology (a loop over its keys is a loop over the nodes)"]
+    ctx.section(check_prefactor_section, ctx, tree)
+    check_partner_suffix(ctx, tree)
+    ctx.section(check_partner_key_flags, ctx, tree)
+    ctx.section(check_daughter_order, ctx, tree)
+    # the per-chain components A_{...} are an observation point of the property: they must be the complete
+    # chain amplitude including the parity sign (rule shared with C02)
+    from .c02 import check_products
+
+    ctx.section(check_products, ctx, tree, symmetrisation=False)  # (the symmetrisation clause of the components belongs to C02)
+    # "equivalently ... the Clebsch-Gordan expansion reproduces the canonical intensity": the expansion is the two-CG product of C02
+    from .c02 import check_cg
+
+    ctx.section(check_cg, ctx, tree)
